@@ -1,6 +1,7 @@
 (* CacheStepsProofs.v -- the small-step machine CacheSteps.v refines the atomic machine
    Cache.v (forward simulation with ghost linearization points and candidate sets). *)
 From Got Require Import Base Cache CacheProofs CacheSteps.
+From Coq Require Import Permutation.
 Local Open Scope Z_scope.
 
 (* ------------------------------------------------------------------ the ghost is an atomic history *)
@@ -17,10 +18,10 @@ Lemma cs_sweep_next_ghost cfg m lk g rest :
   tr_g (cs_sweep_next cfg m lk g rest) = c_run cfg g (tr_emit (cs_sweep_next cfg m lk g rest)).
 Proof. destruct rest as [|[k f] r]; reflexivity. Qed.
 
-Lemma cs_tstep_ghost cfg s tid t :
-  tr_g (cs_tstep cfg s tid t) = c_run cfg (cs_g s) (tr_emit (cs_tstep cfg s tid t)).
+Lemma cs_tstep_ghost md cfg s tid t :
+  tr_g (cs_tstep md cfg s tid t) = c_run cfg (cs_g s) (tr_emit (cs_tstep md cfg s tid t)).
 Proof.
-  unfold cs_tstep, cs_lin_load, cs_fetched, cs_return, cs_park.
+  unfold cs_tstep, cs_lin_load, cs_fetched, cs_fetched_now, cs_return, cs_park.
   destruct (ct_pc t); try reflexivity; try apply cs_sweep_next_ghost;
     cs_break; try reflexivity; try apply cs_sweep_next_ghost;
     cbn [tr_g tr_emit c_run c_step fst]; 
@@ -46,7 +47,7 @@ Proof.
   rewrite rev_app_distr, rev_involutive, c_run_app, <- H. exact Hr.
 Qed.
 
-Lemma cs_step_hist cfg m0 s it : cs_hist cfg m0 s -> cs_hist cfg m0 (fst (cs_step cfg s it)).
+Lemma cs_step_hist md cfg m0 s it : cs_hist cfg m0 s -> cs_hist cfg m0 (fst (cs_step md cfg s it)).
 Proof.
   intros H. destruct it as [tid|dt]; cbn [cs_step].
   - destruct (nth_error (cs_thr s) tid) as [t|]; [|exact H].
@@ -59,12 +60,12 @@ Proof.
     rewrite c_run_app, <- H. reflexivity.
 Qed.
 
-Lemma cs_run_hist cfg m0 sched : forall s, cs_hist cfg m0 s -> cs_hist cfg m0 (cs_run cfg s sched).
+Lemma cs_run_hist md cfg m0 sched : forall s, cs_hist cfg m0 s -> cs_hist cfg m0 (cs_run md cfg s sched).
 Proof. induction sched as [|it r IH]; intros s H; cbn [cs_run]; [exact H|]. apply IH. apply cs_step_hist. exact H. Qed.
 
-Lemma cs_ghost_is_history cfg progs sched :
-  cs_g (cs_run cfg (cs_init progs) sched) = c_run cfg c_init (rev (cs_evs (cs_run cfg (cs_init progs) sched))).
-Proof. apply (cs_run_hist cfg c_init sched). reflexivity. Qed.
+Lemma cs_ghost_is_history md cfg progs sched :
+  cs_g (cs_run md cfg (cs_init progs) sched) = c_run cfg c_init (rev (cs_evs (cs_run md cfg (cs_init progs) sched))).
+Proof. apply (cs_run_hist md cfg c_init sched). reflexivity. Qed.
 
 (* ================================================================== the simulation invariant *)
 Definition cs_out (w : bool) (x : nat) : c_out := if w then OAwait x else OLoad x false.
@@ -81,15 +82,6 @@ Definition cs_rd (m g : c_state) (t : cs_thread) (w : bool) (k : Z) (f : nat) : 
 
 Definition cs_fresh (cfg : c_cfg) (m : c_state) (f : nat) : Prop :=
   forall v e u, cs_fdone m f = Some (v, e, u) -> c_now m - u < c_expire cfg e.
-
-Definition cs_st_out (f : nat) (st : c_st) : c_out :=
-  match st with CGood | CExpired => OAwait f | _ => OImmediate end.
-
-(* Get2 between its map read and the evaluation of the entry's status *)
-Definition cs_gu (cfg : c_cfg) (m g : c_state) (t : cs_thread) (k : Z) (f : nat) : Prop :=
-  cs_A g k f \/
-  (cs_cnd t (OAwait f) /\ cs_fpred m f = None /\ (exists r, cs_fdone m f = Some r) /\ cs_fresh cfg m f) \/
-  (exists v e u, cs_fdone g f = Some (v, e, u) /\ cs_cnd t (cs_st_out f (cs_status_of cfg (c_now g - u) e))).
 
 (* reader that holds predecessor p of f *)
 Definition cs_pu (cfg : c_cfg) (m g : c_state) (t : cs_thread) (w : bool) (k : Z) (f p : nat) : Prop :=
@@ -111,16 +103,10 @@ Definition cs_tinv (cfg : c_cfg) (m g : c_state) (t : cs_thread) : Prop :=
   | CsLRE k f past => ct_op t = Some (CsLoad k) /\ ct_lin t = None /\ c_lookup (c_map m) k = Some f /\
       exists v e u, cs_fdone m f = Some (v, e, u) /\ past = c_now m - u /\
         (cs_status_of cfg past e = CGood -> cs_rd m g t false k f)
-  | CsLAU st last next => exists k, ct_op t = Some (CsLoad k) /\
-      match next with
-      | Some n => cs_pend m g t st last n
-      | None => exists f, last = Some f /\ cs_rd m g t false k f
-      end
-  | CsLSJ st last n => exists k, ct_op t = Some (CsLoad k) /\ cs_pend m g t st last n
+  | CsLAU st last (Some n) | CsLSJ st last n => exists k, ct_op t = Some (CsLoad k) /\ cs_pend m g t st last n
   | CsGBL k | CsGAL k => ct_op t = Some (CsGet2 k)
-  | CsGAU fo => exists k, ct_op t = Some (CsGet2 k) /\
-      match fo with None => cs_cnd t OImmediate | Some f => cs_gu cfg m g t k f end
-  | CsGLU f => exists k, ct_op t = Some (CsGet2 k) /\ cs_gu cfg m g t k f
+  | CsGAU None => exists k, ct_op t = Some (CsGet2 k) /\ cs_cnd t OImmediate
+  | CsGLU f => exists k, ct_op t = Some (CsGet2 k) /\ c_lookup (c_map m) k = Some f
   | CsGRE f past => exists k, ct_op t = Some (CsGet2 k) /\ exists v e u, cs_fdone m f = Some (v, e, u) /\
       match cs_status_of cfg past e with
       | CGood => cs_rd m g t true k f
@@ -132,6 +118,7 @@ Definition cs_tinv (cfg : c_cfg) (m g : c_state) (t : cs_thread) : Prop :=
   | CsRPU w f p => exists k, ct_op t = Some (cs_rdop w k) /\ cs_pu cfg m g t w k f p
   | CsRPE w f p past => ct_op t <> None /\ exists v e u, cs_fdone m p = Some (v, e, u) /\
       cs_cnd t (cs_out w (match cs_status_of cfg past e with CExpired => p | _ => f end))
+  | CsXAU w x => ct_op t <> None /\ cs_cnd t (cs_out w x)
   | CsWLD f v e => ct_op t <> None /\ In f (c_running g)
   | CsWSU f v e now => ct_op t <> None /\ In f (c_running g) /\ now = c_now m
   | CsWSP f v e now => ct_op t <> None /\ In f (c_running g) /\ now = c_now m /\ cs_fdone m f = Some (v, e, now)
@@ -146,8 +133,13 @@ Definition cs_covered_t (t : cs_thread) : Prop :=
   forallb cs_op_covered (ct_prog t) = true /\
   match ct_op t with Some op => cs_op_covered op = true | None => True end.
 
+(* Fixed order: the mutex is held from AfterLock to the end of the decision *)
 Definition cs_holds (pc : cs_pc) : bool :=
-  match pc with CsLAL _ | CsLLU _ _ | CsLRE _ _ _ | CsGAL _ => true | _ => false end.
+  match pc with
+  | CsLAL _ | CsLLU _ _ | CsLRE _ _ _ | CsGAL _ | CsGLU _ | CsGRE _ _
+  | CsRLP _ _ | CsRPU _ _ _ | CsRPE _ _ _ _ => true
+  | _ => false
+  end.
 
 (* the future a worker thread is completing / the job a Load has created and not sent *)
 Definition cs_wfut (pc : cs_pc) : option nat :=
@@ -348,21 +340,6 @@ Proof.
   - right. split; [apply cs_note_mono; exact Hc|]. split; [eapply x_pred_m; eauto|]. exists r. eapply x_done_m; eauto.
 Qed.
 
-Lemma cs_gu_ext t k f :
-  c_now m' = c_now m -> c_now g' = c_now g ->
-  ct_op t = Some (CsGet2 k) -> cs_gu cfg m g t k f -> cs_gu cfg m' g' (cs_note cfg g' t) k f.
-Proof.
-  intros Hnm Hng Hop [HA|[[Hc [Hp [[r Hd] Hf]]]|[v [e [u [Hd Hc]]]]]].
-  - destruct (cs_optnat_dec fin (Some f)) as [Ef|Ef].
-    + right. left. apply (cs_fin_cand true k f t HA Ef Hop).
-    + left. apply (x_A _ _ _ _ _ _ X k f HA Ef).
-  - right. left. split; [apply cs_note_mono; exact Hc|]. split; [eapply x_pred_m; eauto|]. split; [exists r; eapply x_done_m; eauto|].
-    intros v e u H. destruct (x_new_m _ _ _ _ _ _ X f v e u H) as [Ho|Hu].
-    + rewrite Hnm. eapply Hf; eauto.
-    + subst u. pose proof (c_expire_pos cfg e Hcfg). lia.
-  - right. right. exists v, e, u. split; [eapply x_done_g; eauto|]. rewrite Hng. apply cs_note_mono. exact Hc.
-Qed.
-
 Lemma cs_pu_ext t w k f p :
   cs_candnow cfg g t ->
   ct_op t = Some (cs_rdop w k) -> cs_pu cfg m g t w k f p -> cs_pu cfg m' g' (cs_note cfg g' t) w k f p.
@@ -395,7 +372,7 @@ Qed.
 Lemma cs_tinv_ext t :
   cs_tinv cfg m g t -> cs_candnow cfg g t ->
   (cs_holds (ct_pc t) = true -> c_map m' = c_map m) ->
-  (cs_in_window (ct_pc t) = true -> c_now m' = c_now m /\ c_now g' = c_now g) ->
+  (cs_in_window CsFixed (ct_pc t) = true -> c_now m' = c_now m /\ c_now g' = c_now g) ->
   (forall n, cs_pnext (ct_pc t) = Some n -> enq <> Some n) ->
   (forall f, cs_wfut (ct_pc t) = Some f -> fin <> Some f) ->
   cs_tinv cfg m' g' (cs_note cfg g' t).
@@ -408,13 +385,11 @@ Proof.
     destruct (Hwin eq_refl) as [Hnm Hng]. split; [exact H1|]. split; [exact H2|]. split; [exact H3|].
     exists v, e, u. split; [eapply x_done_m; eauto|]. split; [rewrite Hnm; exact H5|].
     intros Hs. apply (cs_rd_ext t false k f H1). auto.
-  - (* LAU *) destruct T as [k [H1 H2]]. exists k. split; [exact H1|]. destruct next as [n|].
-    + apply cs_pend_ext; [apply Hpn; reflexivity|exact H2].
-    + destruct H2 as [f [Hl Hr]]. exists f. split; [exact Hl|]. apply (cs_rd_ext t false k f H1 Hr).
+  - (* LAU *) destruct next as [n|]; [|contradiction]. destruct T as [k [H1 H2]]. exists k. split; [exact H1|].
+    apply cs_pend_ext; [apply Hpn; reflexivity|exact H2].
   - (* LSJ *) destruct T as [k [H1 H2]]. exists k. split; [exact H1|]. apply cs_pend_ext; [apply Hpn; reflexivity|exact H2].
-  - (* GAU *) destruct T as [k [H1 H2]]. exists k. split; [exact H1|]. destruct (Hwin eq_refl) as [Hnm Hng].
-    destruct fo as [f|]; [apply cs_gu_ext; auto|apply cs_note_mono; exact H2].
-  - (* GLU *) destruct T as [k [H1 H2]]. exists k. split; [exact H1|]. destruct (Hwin eq_refl) as [Hnm Hng]. apply cs_gu_ext; auto.
+  - (* GAU *) destruct fo as [f|]; [contradiction|]. destruct T as [k [H1 H2]]. exists k. split; [exact H1|]. apply cs_note_mono; exact H2.
+  - (* GLU *) destruct T as [k [H1 H2]]. exists k. split; [exact H1|]. rewrite (Hmap eq_refl). exact H2.
   - (* GRE *) destruct T as [k [H1 [v [e [u [H2 H3]]]]]]. exists k. split; [exact H1|]. exists v, e, u.
     split; [eapply x_done_m; eauto|]. destruct (cs_status_of cfg past e).
     + apply cs_note_mono; exact H3.
@@ -424,6 +399,7 @@ Proof.
   - (* RLP *) destruct T as [k [H1 H2]]. exists k. split; [exact H1|]. apply (cs_rd_ext t w k f H1 H2).
   - (* RPU *) destruct T as [k [H1 H2]]. exists k. split; [exact H1|]. apply (cs_pu_ext t w k f p Hcn H1 H2).
   - (* RPE *) destruct T as [H0 [v [e [u [H1 H2]]]]]. split; [exact H0|]. exists v, e, u. split; [eapply x_done_m; eauto|]. apply cs_note_mono. exact H2.
+  - (* XAU *) destruct T as [H0 H1]. split; [exact H0|]. apply cs_note_mono. exact H1.
   - (* WLD *) destruct T as [H0 H1]. split; [exact H0|]. eapply x_run; eauto.
   - (* WSU *) destruct T as [H0 [H1 H2]]. destruct (Hwin eq_refl) as [Hnm Hng]. split; [exact H0|]. split; [eapply x_run; eauto|]. lia.
   - (* WSP *) destruct T as [H0 [H1 [H2 H3]]]. destruct (Hwin eq_refl) as [Hnm Hng]. split; [exact H0|]. split; [eapply x_run; eauto|].
@@ -719,71 +695,380 @@ Proof.
   - unfold c_get in Ex. apply nth_error_None in Ex. lia.
 Qed.
 
-(* ================================================================== the reads of Get2 and of a Load that found Good *)
-Definition cs_reader_pc (pc : cs_pc) : bool :=
-  match pc with
-  | CsGAU _ | CsGLU _ | CsGRE _ _ | CsRLP _ _ | CsRPU _ _ _ | CsRPE _ _ _ _ => true
-  | _ => false
-  end.
 
-Ltac cs_simpl_r := unfold cs_park, cs_return, cs_fetched; cbn [tr_m tr_g tr_lock tr_pc tr_ret tr_chk tr_lin tr_ev].
-
-Lemma cs_reader_local cfg s tid t op :
-  c_cfg_ok cfg -> cs_inv cfg s -> nth_error (cs_thr s) tid = Some t -> ct_op t = Some op ->
-  cs_reader_pc (ct_pc t) = true ->
-  let r := cs_tstep cfg s tid t in
-  tr_m r = cs_m s /\ tr_g r = cs_g s /\ tr_lock r = cs_lock s /\ tr_chk r = None /\
-  cs_holds (tr_pc r) = false /\ cs_wfut (tr_pc r) = None /\ cs_pnext (tr_pc r) = None /\
-  cs_tinv cfg (cs_m s) (cs_g s) (cs_next cfg t op (ct_prog t) r) /\
-  match tr_ret r with Some (_, o) => cs_justified (cs_mid cfg t op (ct_prog t) r) o = true | None => True end.
+(* ================================================================== environment-step instances *)
+Lemma cs_fdone_app futs x f :
+  match c_get (futs ++ [x]) f with Some y => c_fdone y | None => None end =
+  if Nat.ltb f (length futs) then match c_get futs f with Some y => c_fdone y | None => None end
+  else if Nat.eqb f (length futs) then c_fdone x else None.
 Proof.
-  intros Hcfg I Ht Hop Hrd.
-  destruct (si_thr _ _ I tid t Ht) as [T [Cn _]]. unfold cs_tinv in T.
-  pose proof (si_g _ _ I) as Ig. pose proof (si_now _ _ I) as Hnow.
-  destruct (ct_pc t) eqn:Epc; try discriminate Hrd; unfold cs_tstep; rewrite Epc; cbv zeta.
+  unfold c_get. destruct (Nat.ltb f (length futs)) eqn:E.
+  - apply Nat.ltb_lt in E. rewrite nth_error_app1 by exact E. reflexivity.
+  - apply Nat.ltb_ge in E. rewrite nth_error_app2 by exact E. destruct (Nat.eqb f (length futs)) eqn:E2.
+    + apply Nat.eqb_eq in E2. subst. rewrite Nat.sub_diag. reflexivity.
+    + apply Nat.eqb_neq in E2. destruct (f - length futs)%nat as [|n] eqn:E3; [lia|]. cbn. destruct n; reflexivity.
+Qed.
+
+Lemma cs_fpred_app futs x f :
+  match c_get (futs ++ [x]) f with Some y => c_fpred y | None => None end =
+  if Nat.ltb f (length futs) then match c_get futs f with Some y => c_fpred y | None => None end
+  else if Nat.eqb f (length futs) then c_fpred x else None.
+Proof.
+  unfold c_get. destruct (Nat.ltb f (length futs)) eqn:E.
+  - apply Nat.ltb_lt in E. rewrite nth_error_app1 by exact E. reflexivity.
+  - apply Nat.ltb_ge in E. rewrite nth_error_app2 by exact E. destruct (Nat.eqb f (length futs)) eqn:E2.
+    + apply Nat.eqb_eq in E2. subst. rewrite Nat.sub_diag. reflexivity.
+    + apply Nat.eqb_neq in E2. destruct (f - length futs)%nat as [|n] eqn:E3; [lia|]. cbn. destruct n; reflexivity.
+Qed.
+
+Lemma cs_fdone_lt m f r : cs_fdone m f = Some r -> (f < length (c_futs m))%nat.
+Proof. intros H. destruct (cs_fdone_get _ _ _ H) as [x [Hx _]]. eapply c_get_lt; eauto. Qed.
+
+(* both arenas get the same loading future appended, both maps the new entry *)
+Lemma cs_ext_new m g k0 pred :
+  (forall f, ~ cs_A g k0 f) ->
+  cs_ext None None m g (cs_new_entry m k0 pred) (c_new_job g k0 pred).
+Proof.
+  intros Hno. constructor; unfold cs_new_entry, c_new_job, cs_with, cs_fdone, cs_fpred; cbn [c_futs c_map c_queue c_running c_now]; try lia; try discriminate.
+  - intros f r H. rewrite cs_fdone_app. pose proof (cs_fdone_lt m f r H) as Hlt. apply Nat.ltb_lt in Hlt. rewrite Hlt. exact H.
+  - intros f r H. rewrite cs_fdone_app. pose proof (cs_fdone_lt g f r H) as Hlt. apply Nat.ltb_lt in Hlt. rewrite Hlt. exact H.
+  - intros f r H Hp. rewrite cs_fpred_app. pose proof (cs_fdone_lt m f r H) as Hlt. apply Nat.ltb_lt in Hlt. rewrite Hlt. exact Hp.
+  - intros f v e u H. rewrite cs_fdone_app in H. destruct (Nat.ltb f (length (c_futs m))); [left; exact H|].
+    destruct (Nat.eqb f (length (c_futs m))); discriminate.
+  - rewrite app_length. cbn. lia.
+  - intros n H _. apply in_or_app. left. exact H.
+  - intros n H. left. exact H.
+  - intros f H _. exact H.
+  - intros k f [Hl Hi] _. destruct (Z.eq_dec k k0) as [->|Hne]; [exfalso; exact (Hno f (conj Hl Hi))|].
+    unfold cs_A; cbn [c_map c_futs]. split; [split|].
+    + rewrite c_lookup_update. destruct (k0 =? k) eqn:E; [lia|exact Hl].
+    + apply c_isload_app. left. exact Hi.
+    + rewrite cs_fpred_app. pose proof (c_isload_lt _ _ Hi) as Hlt. apply Nat.ltb_lt in Hlt. rewrite Hlt. reflexivity.
+Qed.
+
+Lemma cs_ext_enqueue m g n : cs_ext (Some n) None m g (cs_enqueue m n) g.
+Proof.
+  constructor; unfold cs_enqueue, cs_with, cs_fdone, cs_fpred; cbn [c_futs c_map c_queue c_running c_now]; auto; try lia; try discriminate.
+  intros n' H. apply in_app_or in H. destruct H as [H|[H|[]]]; [left; exact H|right; congruence].
+Qed.
+
+Lemma cs_ext_start m g f q k g' :
+  c_queue m = f :: q -> c_start g k = (g', OStart f) ->
+  cs_ext None None m g (cs_with m (c_futs m) (c_map m) q (c_running m ++ [f])) g'.
+Proof.
+  intros Hq Hs. unfold c_start in Hs. destruct (c_take_first (c_key_is (c_futs g) k) (c_queue g)) as [[f' q']|] eqn:Et; [|discriminate].
+  inversion Hs; subst f' g'. clear Hs. destruct (c_take_first_spec _ _ _ _ Et) as [HP _].
+  constructor; unfold cs_with, cs_fdone, cs_fpred, cs_A; cbn [c_futs c_map c_queue c_running c_now]; auto; try lia; try discriminate.
+  - intros n Hin Hnm. apply (Permutation_in _ HP) in Hin. destruct Hin as [->|Hin]; [|exact Hin].
+    exfalso. apply Hnm. rewrite Hq. left. reflexivity.
+  - intros n Hin. left. rewrite Hq. right. exact Hin.
+  - intros f0 Hin _. apply in_or_app. left. exact Hin.
+Qed.
+
+Lemma cs_fdone_setfut futs f x g0 :
+  (f < length futs)%nat ->
+  match c_get (c_setfut futs f x) g0 with Some y => c_fdone y | None => None end =
+  if Nat.eqb g0 f then c_fdone x else match c_get futs g0 with Some y => c_fdone y | None => None end.
+Proof. intros H. rewrite c_get_setfut by exact H. destruct (Nat.eqb g0 f); reflexivity. Qed.
+Lemma cs_fpred_setfut futs f x g0 :
+  (f < length futs)%nat ->
+  match c_get (c_setfut futs f x) g0 with Some y => c_fpred y | None => None end =
+  if Nat.eqb g0 f then c_fpred x else match c_get futs g0 with Some y => c_fpred y | None => None end.
+Proof. intros H. rewrite c_get_setfut by exact H. destruct (Nat.eqb g0 f); reflexivity. Qed.
+
+(* the worker's store of updateTime: memory only *)
+Lemma cs_ext_store_done m g f0 x v e :
+  c_get (c_futs m) f0 = Some x -> c_fdone x = None ->
+  cs_ext None None m g (cs_store_done m f0 (v, e, c_now m)) g.
+Proof.
+  intros Hx Hd. pose proof (c_get_lt _ _ _ Hx) as Hlt.
+  constructor; unfold cs_store_done; rewrite ?Hx; unfold cs_with, cs_fdone, cs_fpred; cbn [c_futs c_map c_queue c_running c_now]; auto; try lia; try discriminate.
+  - intros f r H. rewrite cs_fdone_setfut by exact Hlt. destruct (Nat.eqb f f0) eqn:E; [|exact H].
+    apply Nat.eqb_eq in E. subst f. rewrite Hx, Hd in H. discriminate.
+  - intros f r _ H. rewrite cs_fpred_setfut by exact Hlt. destruct (Nat.eqb f f0) eqn:E; [|exact H].
+    apply Nat.eqb_eq in E. subst f. rewrite Hx in H. cbn. exact H.
+  - intros f v0 e0 u H. rewrite cs_fdone_setfut in H by exact Hlt. destruct (Nat.eqb f f0); [|left; exact H].
+    cbn in H. inversion H. right. reflexivity.
+  - rewrite c_setfut_length by exact Hlt. lia.
+Qed.
+
+Lemma cs_rank_take p f l : In f l -> p f = true -> exists l', c_take_nth p (cs_rank p f l) l = Some (f, l').
+Proof.
+  induction l as [|a r IH]; intros Hin Hp; [destruct Hin|]. cbn [cs_rank c_take_nth].
+  destruct (Nat.eqb a f) eqn:E.
+  - apply Nat.eqb_eq in E. subst a. rewrite Hp. eauto.
+  - assert (Hin' : In f r). { destruct Hin as [->|H]; [rewrite Nat.eqb_refl in E; discriminate|exact H]. }
+    destruct (IH Hin' Hp) as [l' Hl]. destruct (p a); rewrite Hl; eauto.
+Qed.
+
+(* the worker's store of predecessor := nil = the atomic CFinish *)
+Lemma cs_ext_finish cfg m g f0 xm v e k i g' :
+  c_inv cfg g -> c_now m = c_now g ->
+  c_get (c_futs m) f0 = Some xm -> c_fdone xm = Some (v, e, c_now m) ->
+  c_isload (c_futs g) f0 ->
+  c_finish g k i v e = (g', OFinish f0) ->
+  cs_ext None (Some f0) m g (cs_store_pred_nil m f0) g'.
+Proof.
+  intros Ig Hnow Hxm Hdm [xg [Hxg Hdg]] Hf. unfold c_finish in Hf.
+  destruct (c_take_nth (c_key_is (c_futs g) k) i (c_running g)) as [[f' r']|] eqn:Et; [|discriminate].
+  inversion Hf; subst f' g'. clear Hf. destruct (c_take_nth_spec _ _ _ _ _ Et) as [HP _].
+  pose proof (c_get_lt _ _ _ Hxm) as Hltm. pose proof (c_get_lt _ _ _ Hxg) as Hltg.
+  constructor; unfold cs_store_pred_nil; rewrite ?Hxm; unfold cs_with, cs_fdone, cs_fpred, cs_A; cbn [c_futs c_map c_queue c_running c_now]; auto; try lia.
+  - intros f r H. rewrite cs_fdone_setfut by exact Hltm. destruct (Nat.eqb f f0) eqn:E; [|exact H].
+    apply Nat.eqb_eq in E. subst f. rewrite Hxm in H. cbn. exact H.
+  - intros f r H. rewrite cs_fdone_setfut by exact Hltg. destruct (Nat.eqb f f0) eqn:E; [|exact H].
+    apply Nat.eqb_eq in E. subst f. rewrite Hxg, Hdg in H. discriminate.
+  - intros f r _ H. rewrite cs_fpred_setfut by exact Hltm. destruct (Nat.eqb f f0); [reflexivity|exact H].
+  - intros f v0 e0 u H. left. rewrite cs_fdone_setfut in H by exact Hltm. destruct (Nat.eqb f f0) eqn:E; [|exact H].
+    apply Nat.eqb_eq in E. subst f. rewrite Hxm. exact H.
+  - rewrite c_setfut_length by exact Hltm. lia.
+  - intros f Hin Hne. apply (Permutation_in _ HP) in Hin. destruct Hin as [->|Hin]; [congruence|exact Hin].
+  - intros k0 f [Hl [y [Hy Hyd]]] Hne. assert (Hnf : f <> f0) by congruence. apply Nat.eqb_neq in Hnf.
+    split; [split; [exact Hl|]|].
+    + exists y. rewrite c_get_setfut by exact Hltg. rewrite Hnf. auto.
+    + rewrite cs_fpred_setfut by exact Hltg. rewrite Hnf. reflexivity.
+  - intros k0 f [Hl _] Hf. inversion Hf; subst f. split; [exact Hl|]. exists v, e.
+    rewrite cs_fdone_setfut by exact Hltg. rewrite cs_fdone_setfut by exact Hltm. rewrite cs_fpred_setfut by exact Hltm.
+    rewrite Nat.eqb_refl. cbn [c_fdone c_fpred]. rewrite Hdm, Hnow. auto.
+Qed.
+
+Lemma cs_ext_tick cfg m g dt : 0 <= dt ->
+  cs_ext None None m g (cs_tick m dt) (fst (c_step cfg g (CAdvance dt))).
+Proof.
+  intros Hdt. cbn [c_step]. destruct (dt <? 0) eqn:E; [lia|]. cbn [fst].
+  constructor; unfold cs_tick, cs_fdone, cs_fpred, cs_A; cbn [c_futs c_map c_queue c_running c_now]; auto; try lia; try discriminate.
+Qed.
+
+(* ================================================================== steps of the Fixed order *)
+Definition cs_lockmove (s : cs_state) (tid : nat) (t : cs_thread) (lk' : option nat) (pc' : cs_pc) : Prop :=
+  (lk' = cs_lock s /\ cs_holds pc' = cs_holds (ct_pc t)) \/
+  (cs_lock s = None /\ lk' = Some tid /\ cs_holds pc' = true) \/
+  (cs_holds (ct_pc t) = true /\ lk' = None /\ cs_holds pc' = false).
+
+Lemma cs_lockmove_ok cfg s tid t lk' pc' :
+  cs_inv cfg s -> nth_error (cs_thr s) tid = Some t -> cs_lockmove s tid t lk' pc' ->
+  (cs_lock s = lk' \/ (cs_lock s = None /\ lk' = Some tid) \/ (cs_lock s = Some tid /\ lk' = None)) /\
+  (cs_holds pc' = true <-> lk' = Some tid).
+Proof.
+  intros I Ht H. pose proof (si_lock _ _ I tid t Ht) as HL.
+  destruct H as [[-> Hh]|[[Hl [-> Hh]]|[Hh [-> Hh']]]].
+  - split; [left; reflexivity|]. rewrite Hh. exact HL.
+  - split; [right; left; auto|]. rewrite Hh. split; auto.
+  - split; [right; right; split; [apply HL; exact Hh|reflexivity]|]. rewrite Hh'. split; discriminate.
+Qed.
+
+Lemma cs_park_inv cfg s tid t op prog lk' pc' :
+  c_cfg_ok cfg -> cs_inv cfg s -> nth_error (cs_thr s) tid = Some t ->
+  cs_lockmove s tid t lk' pc' ->
+  (forall f v e n, ct_pc t <> CsWSP f v e n) -> pc' <> CsIdle ->
+  cs_tinv cfg (cs_m s) (cs_g s) (cs_mid cfg t op prog (cs_park (cs_m s) lk' (cs_g s) (ct_lin t) pc')) ->
+  forallb cs_op_covered prog = true -> cs_op_covered op = true ->
+  (cs_wfut pc' = None \/ cs_wfut pc' = cs_wfut (ct_pc t)) ->
+  (cs_pnext pc' = None \/ cs_pnext pc' = cs_pnext (ct_pc t)) ->
+  cs_inv cfg (fst (cs_go cfg s tid t op prog (cs_park (cs_m s) lk' (cs_g s) (ct_lin t) pc'))).
+Proof.
+  intros Hcfg I Ht Hlm Hpc Hni Htinv Hcp Hco Hw Hp.
+  destruct (cs_lockmove_ok cfg s tid t lk' pc' I Ht Hlm) as [H1 H2].
+  apply cs_go_pure; auto.
+  - rewrite cs_next_mid by exact Hni. exact Htinv.
+  - apply cs_mis_park; [apply (si_mis _ _ I)|reflexivity|reflexivity].
+Qed.
+
+(* facts about the stepping thread *)
+Lemma cs_thr_facts cfg s tid t : cs_inv cfg s -> nth_error (cs_thr s) tid = Some t ->
+  cs_tinv cfg (cs_m s) (cs_g s) t /\ cs_candnow cfg (cs_g s) t /\ forallb cs_op_covered (ct_prog t) = true /\
+  (forall op, ct_op t = Some op -> cs_op_covered op = true).
+Proof.
+  intros I Ht. destruct (si_thr _ _ I tid t Ht) as [T [Cn [C1 C2]]]. repeat split; auto.
+  intros op Hop. rewrite Hop in C2. exact C2.
+Qed.
+
+Ltac cs_mid_tinv := unfold cs_tinv; rewrite ?cs_mid_pc, ?cs_mid_op, ?cs_mid_lin; unfold cs_park; cbn [tr_pc tr_lin].
+Ltac cs_keep := left; split; reflexivity.
+Ltac cs_not_wsp Epc := let f := fresh in let v := fresh in let e := fresh in let n := fresh in
+  intros f v e n; rewrite Epc; discriminate.
+
+(* ---------------- lock acquisition *)
+Lemma cs_step_lock cfg s tid t op :
+  c_cfg_ok cfg -> cs_inv cfg s -> nth_error (cs_thr s) tid = Some t -> ct_op t = Some op -> cs_blocked s t = false ->
+  (exists k, ct_pc t = CsLBL k) \/ (exists k, ct_pc t = CsGBL k) ->
+  cs_inv cfg (fst (cs_go cfg s tid t op (ct_prog t) (cs_tstep CsFixed cfg s tid t))).
+Proof.
+  intros Hcfg I Ht Hop Hnb Hor. destruct (cs_thr_facts cfg s tid t I Ht) as [T [Cn [Cp Co]]].
+  assert (Hl : cs_lock s = None).
+  { unfold cs_blocked in Hnb. destruct Hor as [[k Epc]|[k Epc]]; rewrite Epc in Hnb; destruct (cs_lock s); congruence. }
+  unfold cs_tinv in T. destruct Hor as [[k Epc]|[k Epc]]; unfold cs_tstep; rewrite Epc in *; cbv zeta.
+  - apply cs_park_inv; auto; try discriminate;
+      first [solve [right; left; auto] | solve [cs_not_wsp Epc] | solve [cs_mid_tinv; rewrite <- Hop; exact T] | solve [left; reflexivity]].
+  - apply cs_park_inv; auto; try discriminate;
+      first [solve [right; left; auto] | solve [cs_not_wsp Epc] | solve [cs_mid_tinv; rewrite <- Hop; exact T] | solve [left; reflexivity]].
+Qed.
+
+Lemma cs_lookup_facts cfg s k f : cs_inv cfg s -> c_lookup (c_map (cs_m s)) k = Some f ->
+  c_lookup (c_map (cs_g s)) k = Some f /\ (f < length (c_futs (cs_m s)))%nat.
+Proof.
+  intros I H. rewrite (si_map _ _ I) in H. split; [exact H|].
+  destruct (ci_map_wf _ _ (si_g _ _ I) k f H) as [x [Hx _]]. rewrite (si_len _ _ I). eapply c_get_lt; eauto.
+Qed.
+
+Lemma cs_loading_A cfg s k f : cs_inv cfg s -> c_lookup (c_map (cs_m s)) k = Some f ->
+  cs_fdone (cs_m s) f = None -> cs_A (cs_g s) k f.
+Proof.
+  intros I Hl Hd. destruct (cs_lookup_facts cfg s k f I Hl) as [Hg Hlt]. split; [exact Hg|].
+  apply (cs_mg_loading cfg s f I Hlt Hd).
+Qed.
+
+(* the entry's status evaluated at this instant: either the entry is (abstractly) still
+   loading and looks fresh, or memory and ghost agree on it and the atomic event answers now
+   what the code is about to decide *)
+Lemma cs_status_cases cfg s w k f v e u :
+  c_cfg_ok cfg -> cs_inv cfg s -> c_lookup (c_map (cs_m s)) k = Some f -> cs_fdone (cs_m s) f = Some (v, e, u) ->
+  (cs_status_of cfg (c_now (cs_m s) - u) e = CGood /\ cs_A (cs_g s) k f) \/
+  (cs_fdone (cs_g s) f = Some (v, e, u) /\ cs_fpred (cs_m s) f = None /\
+   cs_cand cfg (cs_g s) (cs_rdop w k) =
+     Some (match cs_status_of cfg (c_now (cs_m s) - u) e with
+           | CGood => cs_out w f
+           | CExpired => if w then OAwait f else OLoad f true
+           | _ => if w then OImmediate else OLoad (length (c_futs (cs_g s))) true
+           end)).
+Proof.
+  intros Hcfg I Hl Hd. destruct (cs_lookup_facts cfg s k f I Hl) as [Hg Hlt].
+  destruct (cs_fdone (cs_g s) f) as [r|] eqn:Eg.
+  - right. destruct (cs_mg_done cfg s f r I Eg) as [Hm Hp]. rewrite Hd in Hm. inversion Hm; subst r.
+    split; [reflexivity|]. split; [exact Hp|]. rewrite (si_now _ _ I).
+    apply (cs_cand_done cfg (cs_g s) w k f v e u (si_g _ _ I) Hg Eg).
+  - left. pose proof (cs_mg_window cfg s f v e u I Hd Eg) as Hu. subst u.
+    replace (c_now (cs_m s) - c_now (cs_m s)) with 0 by lia. split; [apply cs_status_fresh; exact Hcfg|].
+    split; [exact Hg|]. pose proof (cs_mg_get cfg s f I) as H. unfold cs_fdone in Hd, Eg.
+    destruct (c_get (c_futs (cs_m s)) f) as [x|]; [|discriminate].
+    destruct (c_get (c_futs (cs_g s)) f) as [y|] eqn:Ey; [|contradiction]. exists y. auto.
+Qed.
+
+Lemma cs_return_inv cfg s tid t op prog res o :
+  c_cfg_ok cfg -> cs_inv cfg s -> nth_error (cs_thr s) tid = Some t ->
+  cs_holds (ct_pc t) = false -> (forall f v e n, ct_pc t <> CsWSP f v e n) ->
+  forallb cs_op_covered prog = true -> cs_op_covered op = true ->
+  cs_justified (cs_mid cfg t op prog (cs_return (cs_m s) (cs_lock s) (cs_g s) (ct_lin t) res o)) o = true ->
+  cs_inv cfg (fst (cs_go cfg s tid t op prog (cs_return (cs_m s) (cs_lock s) (cs_g s) (ct_lin t) res o))).
+Proof.
+  intros Hcfg I Ht Hh Hpc Hcp Hco Hj.
+  destruct (cs_lockmove_ok cfg s tid t (cs_lock s) CsIdle I Ht) as [H1 H2].
+  { left. split; [reflexivity|]. rewrite Hh. reflexivity. }
+  apply cs_go_pure; auto;
+    first [solve [unfold cs_next; cbn; reflexivity] | solve [left; reflexivity]
+          | solve [eapply cs_mis_ret; [apply (si_mis _ _ I)|reflexivity|reflexivity|exact Hj]]].
+Qed.
+
+Lemma cs_just_cnd cfg t op prog r o :
+  (exists w x, o = cs_out w x) \/ o = OImmediate -> cs_cnd t o -> cs_justified (cs_mid cfg t op prog r) o = true.
+Proof.
+  intros Ho Hc. apply (cs_mid_cnd cfg t op prog r) in Hc.
+  destruct Ho as [[w [x ->]]| ->]; [destruct w|]; cbn [cs_out cs_justified]; apply cs_mem_out_spec; exact Hc.
+Qed.
+
+(* ---------------- the steps that change neither memory nor ghost *)
+Lemma cs_step_pure cfg s tid t op :
+  c_cfg_ok cfg -> cs_inv cfg s -> nth_error (cs_thr s) tid = Some t -> ct_op t = Some op ->
+  match ct_pc t with
+  | CsLAL k => c_lookup (c_map (cs_m s)) k <> None
+  | CsLLU _ _ | CsLAU _ _ _ | CsGAL _ | CsGAU _ | CsGLU _ | CsGRE _ _ | CsRLP _ _ | CsRPU _ _ _ | CsRPE _ _ _ _
+  | CsXAU _ _ | CsWLD _ _ _ => True
+  | CsLRE k f past => cs_status_of cfg past (cs_err_of (cs_m s) f) = CGood
+  | CsGFW x => cs_fdone (cs_m s) x <> None
+  | _ => False
+  end ->
+  cs_inv cfg (fst (cs_go cfg s tid t op (ct_prog t) (cs_tstep CsFixed cfg s tid t))).
+Proof.
+  intros Hcfg I Ht Hop Hside. destruct (cs_thr_facts cfg s tid t I Ht) as [T [Cn [Cp Co]]].
+  pose proof (Co op Hop) as Hco. unfold cs_tinv in T.
+  destruct (ct_pc t) eqn:Epc; try contradiction; unfold cs_tstep; rewrite Epc; cbv zeta.
+  - (* LAL, entry present *)
+    destruct (c_lookup (c_map (cs_m s)) k) as [f|] eqn:El; [|congruence].
+    apply cs_park_inv; auto; try discriminate;
+      first [solve [unfold cs_lockmove; rewrite Epc; left; split; reflexivity] | solve [cs_not_wsp Epc] | solve [left; reflexivity] | idtac].
+    cs_mid_tinv. destruct T as [T1 T2]. rewrite <- Hop. auto.
+  - (* LLU *)
+    destruct T as [T1 [T2 T3]].
+    destruct (cs_fdone (cs_m s) f) as [[[v e] u]|] eqn:Ed.
+    + apply cs_park_inv; auto; try discriminate;
+        first [solve [unfold cs_lockmove; rewrite Epc; left; split; reflexivity] | solve [cs_not_wsp Epc] | solve [left; reflexivity] | idtac].
+      cs_mid_tinv. rewrite <- Hop. split; [exact T1|]. split; [exact T2|]. split; [exact T3|].
+      exists v, e, u. split; [exact Ed|]. split; [reflexivity|]. intros Hs.
+      destruct (cs_status_cases cfg s false k f v e u Hcfg I T3 Ed) as [[_ HA]|[Hg [Hp Hc]]]; [left; exact HA|].
+      right. rewrite Hs in Hc. split; [|split; [exact Hp|eauto]].
+      apply cs_mid_now. cbn [tr_g cs_park]. rewrite Hop in T1. inversion T1. exact Hc.
+    + apply cs_park_inv; auto; try discriminate;
+        first [solve [unfold cs_lockmove; rewrite Epc; left; split; reflexivity] | solve [cs_not_wsp Epc] | solve [left; reflexivity] | idtac].
+      cs_mid_tinv. exists k. split; [rewrite <- Hop; exact T1|]. left. apply (cs_loading_A cfg s k f I T3 Ed).
+  - (* LRE, Good *)
+    destruct T as [T1 [T2 [T3 [v [e [u [T4 [T5 T6]]]]]]]]. rewrite Hside.
+    apply cs_park_inv; auto; try discriminate;
+      first [solve [unfold cs_lockmove; rewrite Epc; left; split; reflexivity] | solve [cs_not_wsp Epc] | solve [left; reflexivity] | idtac].
+    cs_mid_tinv. exists k. split; [rewrite <- Hop; exact T1|]. apply cs_rd_mid. apply T6.
+    unfold cs_err_of in Hside. rewrite T4 in Hside. exact Hside.
+  - (* LAU *)
+    destruct next as [n|]; [|contradiction]. destruct T as [k [T1 T2]].
+    apply cs_park_inv; auto; try discriminate;
+      first [solve [unfold cs_lockmove; rewrite Epc; left; split; reflexivity] | solve [cs_not_wsp Epc] | solve [left; reflexivity] | solve [right; rewrite Epc; reflexivity] | idtac].
+    cs_mid_tinv. exists k. split; [rewrite <- Hop; exact T1|]. apply cs_pend_mid; [reflexivity|exact T2].
+  - (* GAL *)
+    destruct (c_lookup (c_map (cs_m s)) k) as [f|] eqn:El.
+    + apply cs_park_inv; auto; try discriminate;
+        first [solve [unfold cs_lockmove; rewrite Epc; left; split; reflexivity] | solve [cs_not_wsp Epc] | solve [left; reflexivity] | idtac].
+      cs_mid_tinv. exists k. split; [rewrite <- Hop; exact T|exact El].
+    + apply cs_park_inv; auto; try discriminate;
+        first [solve [unfold cs_lockmove; rewrite Epc; right; right; auto] | solve [cs_not_wsp Epc] | solve [left; reflexivity] | idtac].
+      cs_mid_tinv. exists k. split; [rewrite <- Hop; exact T|]. apply cs_mid_now. cbn [tr_g cs_park].
+      rewrite Hop in T. inversion T. cbn [cs_cand]. unfold c_get2. rewrite <- (si_map _ _ I), El. reflexivity.
   - (* GAU *)
-    destruct T as [k [Hk T]]. destruct fo as [f|]; cs_simpl_r; do 7 (split; [reflexivity|]).
-    + split; [|exact Logic.I]. rewrite cs_next_mid by discriminate. unfold cs_tinv. rewrite cs_mid_pc, cs_mid_op. cs_simpl_r.
-      exists k. split; [rewrite <- Hop; exact Hk|]. destruct T as [HA|[[H1 H2]|[v [e [u [H1 H2]]]]]].
-      * left. exact HA.
-      * right. left. split; [apply cs_mid_cnd; exact H1|exact H2].
-      * right. right. exists v, e, u. split; [exact H1|apply cs_mid_cnd; exact H2].
-    + split; [reflexivity|]. cbn [cs_justified]. apply cs_mem_out_spec. apply cs_mid_cnd. exact T.
+    destruct fo as [f|]; [contradiction|]. destruct T as [k [T1 T2]].
+    apply cs_return_inv; auto; [rewrite Epc; reflexivity|cs_not_wsp Epc|].
+    apply cs_just_cnd; [right; reflexivity|exact T2].
   - (* GLU *)
-    destruct T as [k [Hk T]]. destruct (cs_fdone (cs_m s) f) as [[[v e] u]|] eqn:Ed; cs_simpl_r; do 7 (split; [reflexivity|]).
-    + split; [|exact Logic.I]. rewrite cs_next_mid by discriminate. unfold cs_tinv. rewrite cs_mid_pc, cs_mid_op. cs_simpl_r.
-      exists k. split; [rewrite <- Hop; exact Hk|]. exists v, e, u. split; [exact Ed|].
-      destruct T as [HA|[[H1 [H2 [H3 H4]]]|[v0 [e0 [u0 [H1 H2]]]]]].
-      * (* complete in memory, loading in the ghost: stamped now *)
-        pose proof (cs_mg_window cfg s f v e u I Ed (cs_isload_fdone _ _ (proj2 HA))) as Hu. subst u.
-        replace (c_now (cs_m s) - c_now (cs_m s)) with 0 by lia. rewrite (cs_status_fresh cfg e Hcfg). left. exact HA.
-      * pose proof (H4 v e u Ed) as Hf. unfold cs_status_of. destruct (c_now (cs_m s) - u <? c_expire cfg e) eqn:E1; [|lia].
-        right. split; [apply cs_mid_cnd; exact H1|]. split; [exact H2|exact H3].
-      * destruct (cs_mg_done cfg s f _ I H1) as [Hm Hp]. rewrite Ed in Hm. inversion Hm; subst v0 e0 u0.
-        rewrite Hnow. destruct (cs_status_of cfg (c_now (cs_g s) - u) e) eqn:Es; cbn [cs_st_out] in H2; try (apply cs_mid_cnd; exact H2).
-        right. split; [apply cs_mid_cnd; exact H2|]. split; [exact Hp|eauto].
-    + split; [|exact Logic.I]. rewrite cs_next_mid by discriminate. unfold cs_tinv. rewrite cs_mid_pc, cs_mid_op. cs_simpl_r.
-      exists k. split; [rewrite <- Hop; exact Hk|]. destruct T as [HA|[[H1 [H2 [[r0 H3] H4]]]|[v0 [e0 [u0 [H1 H2]]]]]].
-      * left. exact HA.
-      * congruence.
-      * destruct (cs_mg_done cfg s f _ I H1) as [Hm _]. congruence.
+    destruct T as [k [T1 T2]]. destruct (cs_fdone (cs_m s) f) as [[[v e] u]|] eqn:Ed.
+    + apply cs_park_inv; auto; try discriminate;
+        first [solve [unfold cs_lockmove; rewrite Epc; left; split; reflexivity] | solve [cs_not_wsp Epc] | solve [left; reflexivity] | idtac].
+      cs_mid_tinv. exists k. split; [rewrite <- Hop; exact T1|]. exists v, e, u. split; [exact Ed|].
+      assert (Hopk : op = cs_rdop true k) by (rewrite Hop in T1; inversion T1; reflexivity).
+      destruct (cs_status_cases cfg s true k f v e u Hcfg I T2 Ed) as [[Hs HA]|[Hg [Hp Hc]]].
+      * rewrite Hs. left. exact HA.
+      * rewrite <- Hopk in Hc. apply (cs_mid_now cfg t op (ct_prog t) (cs_park (cs_m s) (cs_lock s) (cs_g s) (ct_lin t) (CsGRE f (c_now (cs_m s) - u)))) in Hc.
+        destruct (cs_status_of cfg (c_now (cs_m s) - u) e); try exact Hc.
+        right. split; [exact Hc|]. split; [exact Hp|eauto].
+    + apply cs_park_inv; auto; try discriminate;
+        first [solve [unfold cs_lockmove; rewrite Epc; left; split; reflexivity] | solve [cs_not_wsp Epc] | solve [left; reflexivity] | idtac].
+      cs_mid_tinv. exists k. split; [rewrite <- Hop; exact T1|]. left. apply (cs_loading_A cfg s k f I T2 Ed).
   - (* GRE *)
-    destruct T as [k [Hk [v [e [u [Hd T]]]]]]. unfold cs_err_of. rewrite Hd.
-    destruct (cs_status_of cfg past e) eqn:Es; cs_simpl_r; do 7 (split; [reflexivity|]).
-    + split; [reflexivity|]. cbn [cs_justified]. apply cs_mem_out_spec. apply cs_mid_cnd. exact T.
-    + split; [|exact Logic.I]. rewrite cs_next_mid by discriminate. unfold cs_tinv. rewrite cs_mid_pc, cs_mid_op. cs_simpl_r.
-      exists k. split; [rewrite <- Hop; exact Hk|]. apply cs_rd_mid. exact T.
-    + split; [|cbn [cs_justified]; apply cs_mem_out_spec; apply cs_mid_cnd; exact T].
-      rewrite cs_next_mid by discriminate. unfold cs_tinv. rewrite cs_mid_pc, cs_mid_op. cs_simpl_r. discriminate.
-    + split; [reflexivity|]. cbn [cs_justified]. apply cs_mem_out_spec. apply cs_mid_cnd. exact T.
+    destruct T as [k [T1 [v [e [u [T2 T3]]]]]]. unfold cs_err_of. rewrite T2.
+    destruct (cs_status_of cfg past e) eqn:Es; unfold cs_fetched.
+    + apply cs_park_inv; auto; try discriminate;
+        first [solve [unfold cs_lockmove; rewrite Epc; right; right; auto] | solve [cs_not_wsp Epc] | solve [left; reflexivity] | idtac].
+      cs_mid_tinv. exists k. split; [rewrite <- Hop; exact T1|]. apply cs_mid_cnd. exact T3.
+    + apply cs_park_inv; auto; try discriminate;
+        first [solve [unfold cs_lockmove; rewrite Epc; left; split; reflexivity] | solve [cs_not_wsp Epc] | solve [left; reflexivity] | idtac].
+      cs_mid_tinv. exists k. split; [rewrite <- Hop; exact T1|]. apply cs_rd_mid. exact T3.
+    + apply cs_park_inv; auto; try discriminate;
+        first [solve [unfold cs_lockmove; rewrite Epc; right; right; auto] | solve [cs_not_wsp Epc] | solve [left; reflexivity] | idtac].
+      cs_mid_tinv. split; [discriminate|]. apply cs_mid_cnd. exact T3.
+    + apply cs_park_inv; auto; try discriminate;
+        first [solve [unfold cs_lockmove; rewrite Epc; right; right; auto] | solve [cs_not_wsp Epc] | solve [left; reflexivity] | idtac].
+      cs_mid_tinv. exists k. split; [rewrite <- Hop; exact T1|]. apply cs_mid_cnd. exact T3.
+  - (* GFW *)
+    destruct (cs_fdone (cs_m s) x) as [[[v e] u]|] eqn:Ed; [|congruence].
+    destruct (cs_lockmove_ok cfg s tid t (cs_lock s) CsIdle I Ht) as [H1 H2].
+    { left. split; [reflexivity|]. rewrite Epc. reflexivity. }
+    apply cs_go_pure; auto; try (left; reflexivity).
+    + cs_not_wsp Epc.
+    + unfold cs_next. cbn. reflexivity.
+    + apply cs_mis_park; [apply (si_mis _ _ I)|reflexivity|reflexivity].
   - (* RLP *)
-    destruct T as [k [Hk T]]. destruct (cs_fpred (cs_m s) f) as [p|] eqn:Ep.
-    + cs_simpl_r; do 7 (split; [reflexivity|]). split; [|exact Logic.I].
-      rewrite cs_next_mid by discriminate. unfold cs_tinv. rewrite cs_mid_pc, cs_mid_op. cs_simpl_r.
-      exists k. split; [rewrite <- Hop; exact Hk|]. destruct T as [HA|[_ [H2 _]]]; [|congruence].
+    destruct T as [k [Hk T]]. destruct (cs_fpred (cs_m s) f) as [p|] eqn:Ep; unfold cs_fetched.
+    + apply cs_park_inv; auto; try discriminate;
+        first [solve [unfold cs_lockmove; rewrite Epc; left; split; reflexivity] | solve [cs_not_wsp Epc] | solve [left; reflexivity] | idtac].
+      cs_mid_tinv. exists k. split; [rewrite <- Hop; exact Hk|]. destruct T as [HA|[_ [H2 _]]]; [|congruence].
       rewrite (cs_mg_pred cfg s f I) in Ep. destruct HA as [Hl [x [Hx Hxd]]].
       assert (Hxp : c_fpred x = Some p). { unfold cs_fpred in Ep. rewrite Hx in Ep. exact Ep. }
-      destruct (ci_pred _ _ Ig f x p Hx Hxp) as [_ [y [v [e [u [Hy [_ [Hyd Hage]]]]]]]].
+      destruct (ci_pred _ _ (si_g _ _ I) f x p Hx Hxp) as [_ [y [v [e [u [Hy [_ [Hyd Hage]]]]]]]].
       assert (Hgp : cs_fdone (cs_g s) p = Some (v, e, u)). { unfold cs_fdone. rewrite Hy. exact Hyd. }
       exists v, e, u. split; [apply (cs_mg_done cfg s p _ I Hgp)|]. split; [exact Hgp|]. split; [exact Hage|].
       left. split; [split; [exact Hl|exists x; auto]|exact Ep].
@@ -791,15 +1076,14 @@ Proof.
       { destruct T as [HA|[H1 _]]; [|exact H1].
         pose proof (Cn _ _ Hk (cs_cand_A cfg (cs_g s) w k f HA)) as Hc.
         rewrite cs_fetch_nopred in Hc; [exact Hc|]. rewrite <- (cs_mg_pred cfg s f I). exact Ep. }
-      destruct w; cs_simpl_r; do 7 (split; [reflexivity|]).
-      * split; [|cbn [cs_justified]; apply cs_mem_out_spec; apply cs_mid_cnd; exact Hj].
-        rewrite cs_next_mid by discriminate. unfold cs_tinv. rewrite cs_mid_pc, cs_mid_op. cs_simpl_r. discriminate.
-      * split; [reflexivity|]. cbn [cs_justified]. apply cs_mem_out_spec. apply cs_mid_cnd. exact Hj.
+      apply cs_park_inv; auto; try discriminate;
+        first [solve [unfold cs_lockmove; rewrite Epc; right; right; auto] | solve [cs_not_wsp Epc] | solve [left; reflexivity] | idtac].
+      cs_mid_tinv. split; [discriminate|]. apply cs_mid_cnd. exact Hj.
   - (* RPU *)
     destruct T as [k [Hk [v [e [u [Hdm [Hdg [Hage Hor]]]]]]]]. rewrite Hdm.
-    cs_simpl_r; do 7 (split; [reflexivity|]). split; [|exact Logic.I].
-    rewrite cs_next_mid by discriminate. unfold cs_tinv. rewrite cs_mid_pc, cs_mid_op. cs_simpl_r.
-    split; [discriminate|]. exists v, e, u. split; [exact Hdm|]. apply cs_mid_cnd. rewrite Hnow.
+    apply cs_park_inv; auto; try discriminate;
+      first [solve [unfold cs_lockmove; rewrite Epc; left; split; reflexivity] | solve [cs_not_wsp Epc] | solve [left; reflexivity] | idtac].
+    cs_mid_tinv. split; [discriminate|]. exists v, e, u. split; [exact Hdm|]. apply cs_mid_cnd. rewrite (si_now _ _ I).
     unfold cs_status_of. destruct (c_now (cs_g s) - u <? c_expire cfg e) eqn:E1; [lia|].
     destruct Hor as [[HA Hp]|[Hc Hor]].
     + pose proof (Cn _ _ Hk (cs_cand_A cfg (cs_g s) w k f HA)) as Hc.
@@ -808,34 +1092,586 @@ Proof.
     + destruct (c_now (cs_g s) - u <? 2 * c_expire cfg e) eqn:E2; [|exact Hc].
       destruct Hor as [Hc'|Hr]; [exact Hc'|lia].
   - (* RPE *)
-    destruct T as [_ [v [e [u [Hd Hc]]]]]. unfold cs_err_of. rewrite Hd.
-    destruct (cs_status_of cfg past e); destruct w; cs_simpl_r; do 7 (split; [reflexivity|]);
-      (split; [first [reflexivity | rewrite cs_next_mid by discriminate; unfold cs_tinv; rewrite cs_mid_pc, cs_mid_op; cs_simpl_r; discriminate]
-              |cbn [cs_justified]; apply cs_mem_out_spec; apply cs_mid_cnd; exact Hc]).
+    destruct T as [_ [v [e [u [Hd Hc]]]]]. unfold cs_err_of. rewrite Hd. unfold cs_fetched.
+    destruct (cs_status_of cfg past e);
+      (apply cs_park_inv; auto; try discriminate;
+        first [solve [unfold cs_lockmove; rewrite Epc; right; right; auto] | solve [cs_not_wsp Epc] | solve [left; reflexivity] | idtac];
+       cs_mid_tinv; split; [discriminate|apply cs_mid_cnd; exact Hc]).
+  - (* XAU *)
+    destruct T as [_ Hc]. unfold cs_fetched_now. destruct w.
+    + destruct (cs_lockmove_ok cfg s tid t (cs_lock s) (CsGFW x) I Ht) as [H1 H2].
+      { left. split; [reflexivity|]. rewrite Epc. reflexivity. }
+      apply cs_go_pure; auto; try (left; reflexivity).
+      * cs_not_wsp Epc.
+      * rewrite cs_next_mid by discriminate. unfold cs_tinv. rewrite cs_mid_pc, cs_mid_op. cbn. discriminate.
+      * eapply cs_mis_ret; [apply (si_mis _ _ I)|reflexivity|reflexivity|].
+        apply cs_just_cnd; [left; exists true, x; reflexivity|exact Hc].
+    + apply cs_return_inv; auto; [rewrite Epc; reflexivity|cs_not_wsp Epc|].
+      apply cs_just_cnd; [left; exists false, x; reflexivity|exact Hc].
+  - (* WLD *)
+    destruct T as [T0 T1].
+    apply cs_park_inv; auto; try discriminate;
+      first [solve [unfold cs_lockmove; rewrite Epc; left; split; reflexivity] | solve [cs_not_wsp Epc] | solve [left; reflexivity] | solve [right; rewrite Epc; reflexivity] | idtac].
+    cs_mid_tinv. split; [discriminate|]. auto.
 Qed.
 
-Lemma cs_reader_step_inv cfg s tid t :
-  c_cfg_ok cfg -> cs_inv cfg s -> nth_error (cs_thr s) tid = Some t -> cs_reader_pc (ct_pc t) = true ->
-  cs_inv cfg (fst (cs_step cfg s (CsRun tid))).
+(* ---------------- helpers for the steps that change memory *)
+Lemma cs_wit_keep cfg s tid t op prog r j tj :
+  nth_error (cs_thr s) tid = Some t -> nth_error (cs_thr s) j = Some tj -> j <> tid ->
+  nth_error (cs_thr (fst (cs_go cfg s tid t op prog r))) j = Some (cs_note cfg (tr_g r) tj).
 Proof.
-  intros Hcfg I Ht Hrd. cbn [cs_step]. rewrite Ht.
-  assert (Hnb : cs_blocked s t = false).
-  { unfold cs_blocked. destruct (ct_pc t); try discriminate Hrd; reflexivity. }
-  rewrite Hnb.
-  destruct (si_thr _ _ I tid t Ht) as [T [Cn [Cv1 Cv2]]].
-  destruct (ct_op t) as [op|] eqn:Hop.
-  2:{ exfalso. unfold cs_tinv in T. destruct (ct_pc t); try discriminate Hrd;
-        repeat match goal with H : exists _, _ |- _ => destruct H | H : _ /\ _ |- _ => destruct H end; congruence. }
-  destruct (cs_reader_local cfg s tid t op Hcfg I Ht Hop Hrd) as [Hm [Hg [Hl [Hc [Hh [Hw [Hp [Hti Hj]]]]]]]].
-  apply cs_go_pure; auto.
-  - rewrite Hh. split; [discriminate|]. intros H. rewrite Hl in H. apply (si_lock _ _ I tid t Ht) in H.
-    destruct (ct_pc t); try discriminate Hrd; discriminate H.
-  - intros f v e n Hc0. rewrite Hc0 in Hrd. discriminate.
-  - destruct (tr_ret (cs_tstep cfg s tid t)) as [[res o]|] eqn:Er.
-    + eapply cs_mis_ret; eauto. apply (si_mis _ _ I).
-    + apply cs_mis_park; auto. apply (si_mis _ _ I).
+  intros Ht Hj Hne. rewrite cs_go_thr, (cs_thr_nth cfg s tid t _ _ j Ht). apply Nat.eqb_neq in Hne. rewrite Hne, Hj. reflexivity.
+Qed.
+Lemma cs_wit_self cfg s tid t op prog r :
+  nth_error (cs_thr s) tid = Some t ->
+  nth_error (cs_thr (fst (cs_go cfg s tid t op prog r))) tid = Some (cs_next cfg t op prog r).
+Proof. intros Ht. rewrite cs_go_thr, (cs_thr_nth cfg s tid t _ _ tid Ht), Nat.eqb_refl. reflexivity. Qed.
+
+Definition cs_futrel (s : cs_state) : Prop :=
+  forall f x, c_get (c_futs (cs_m s)) f = Some x ->
+      exists y, c_get (c_futs (cs_g s)) f = Some y /\ c_fkey y = c_fkey x /\ c_fpred y = c_fpred x /\
+        (c_fdone y = c_fdone x \/
+         (c_fdone y = None /\ exists tid t v e, nth_error (cs_thr s) tid = Some t /\
+            ct_pc t = CsWSP f v e (c_now (cs_m s)) /\ c_fdone x = Some (v, e, c_now (cs_m s)))).
+
+(* the same future appended to both arenas *)
+Lemma cs_fut_new cfg s tid t op prog r xnew :
+  cs_inv cfg s -> nth_error (cs_thr s) tid = Some t -> (forall f v e n, ct_pc t <> CsWSP f v e n) ->
+  c_futs (tr_m r) = c_futs (cs_m s) ++ [xnew] -> c_futs (tr_g r) = c_futs (cs_g s) ++ [xnew] ->
+  c_now (tr_m r) = c_now (cs_m s) ->
+  cs_futrel (fst (cs_go cfg s tid t op prog r)).
+Proof.
+  intros I Ht Hpc Hfm Hfg Hn f x Hx. change (cs_m (fst (cs_go cfg s tid t op prog r))) with (tr_m r) in *.
+  change (cs_g (fst (cs_go cfg s tid t op prog r))) with (tr_g r). rewrite Hfm in Hx. rewrite Hfg, Hn.
+  apply c_get_app_inv in Hx. destruct Hx as [Hx|[Hf Hxx]].
+  - destruct (si_fut _ _ I f x Hx) as [y [Hy [Hk [Hp Hd]]]]. exists y. split; [apply c_get_app_old; exact Hy|].
+    split; [exact Hk|]. split; [exact Hp|].
+    destruct Hd as [Hd|[Hd [j [tj [v [e [Hj [Hpcj Hdx]]]]]]]]; [left; exact Hd|right].
+    split; [exact Hd|]. exists j, (cs_note cfg (tr_g r) tj), v, e.
+    assert (Hne : j <> tid). { intros ->. rewrite Ht in Hj. inversion Hj; subst. exact (Hpc _ _ _ _ Hpcj). }
+    split; [apply cs_wit_keep; auto|]. rewrite cs_note_pc. auto.
+  - subst. exists xnew. rewrite (si_len _ _ I). split; [apply c_get_app_new|]. auto.
 Qed.
 
+Lemma cs_queue_range cfg s f : cs_inv cfg s -> In f (c_queue (cs_m s)) -> (f < length (c_futs (cs_m s)))%nat.
+Proof.
+  intros I H. apply (si_queue _ _ I) in H. rewrite (si_len _ _ I). apply c_isload_lt.
+  apply (ci_jobs _ _ (si_g _ _ I)). apply in_or_app. left. exact H.
+Qed.
+
+Lemma cs_load_eq cfg g k f v e u :
+  c_lookup (c_map g) k = Some f -> cs_fdone g f = Some (v, e, u) ->
+  cs_status_of cfg (c_now g - u) e <> CGood ->
+  c_load cfg g k =
+    match cs_status_of cfg (c_now g - u) e with
+    | CExpired => (c_new_job g k (Some f), OLoad f true)
+    | _ => (c_new_job g k None, OLoad (length (c_futs g)) true)
+    end.
+Proof.
+  intros Hl Hd Hs. destruct (cs_fdone_get _ _ _ Hd) as [x [Hx Hxd]]. unfold c_load. rewrite Hl.
+  rewrite (cs_status_of_g cfg (c_now g) (c_futs g) f x v e u Hx Hxd).
+  destruct (cs_status_of cfg (c_now g - u) e) eqn:E; try reflexivity; congruence.
+Qed.
+
+(* the job-creating decision of Load: both memories get the new entry *)
+Lemma cs_create_inv cfg s tid t op k st last pred o :
+  c_cfg_ok cfg -> cs_inv cfg s -> nth_error (cs_thr s) tid = Some t -> ct_op t = Some op -> op = CsLoad k ->
+  ct_pc t = CsLAL k \/ (exists f past, ct_pc t = CsLRE k f past) ->
+  st <> CGood -> (forall f, ~ cs_A (cs_g s) k f) ->
+  c_load cfg (cs_g s) k = (c_new_job (cs_g s) k pred, o) ->
+  o = OLoad (match st, last with CExpired, Some f => f | _, _ => length (c_futs (cs_m s)) end) true ->
+  let r := {| tr_m := cs_new_entry (cs_m s) k pred; tr_lock := None; tr_g := c_new_job (cs_g s) k pred; tr_emit := [CLoad k];
+              tr_pc := CsLAU st last (Some (length (c_futs (cs_m s)))); tr_ev := CsEvYield 3 None; tr_lin := Some o;
+              tr_ret := None; tr_chk := None |} in
+  cs_inv cfg (fst (cs_go cfg s tid t op (ct_prog t) r)).
+Proof.
+  intros Hcfg I Ht Hop Hopk Hpc Hst Hno Hload Ho r.
+  destruct (cs_thr_facts cfg s tid t I Ht) as [T [Cn [Cp Co]]].
+  assert (Hh : cs_holds (ct_pc t) = true). { destruct Hpc as [->|[f [past ->]]]; reflexivity. }
+  assert (Hnw : forall f v e n, ct_pc t <> CsWSP f v e n). { intros f v e n. destruct Hpc as [->|[f0 [past ->]]]; discriminate. }
+  assert (Hlk : cs_lock s = Some tid). { apply (si_lock _ _ I tid t Ht). exact Hh. }
+  assert (Ig' : c_inv cfg (c_new_job (cs_g s) k pred)).
+  { pose proof (c_inv_step cfg (cs_g s) (CLoad k) (si_g _ _ I)) as H. cbn [c_step] in H. rewrite Hload in H. exact H. }
+  apply (cs_go_inv cfg s tid t op (ct_prog t) r None None Hcfg I Ht); unfold r; cbn [tr_m tr_g tr_lock tr_pc tr_ret tr_chk tr_lin].
+  - apply cs_ext_new. exact Hno.
+  - exact Ig'.
+  - cbn. apply (si_nodisp _ _ I).
+  - reflexivity.
+  - reflexivity.
+  - cbn. rewrite (si_map _ _ I), (si_len _ _ I). reflexivity.
+  - cbn. rewrite !app_length, (si_len _ _ I). reflexivity.
+  - apply (cs_fut_new cfg s tid t op (ct_prog t) r {| c_fkey := k; c_fdone := None; c_fpred := pred |} I Ht Hnw); reflexivity.
+  - cbn. intros f H. apply in_or_app. left. apply (si_queue _ _ I). exact H.
+  - cbn. apply (si_qnodup _ _ I).
+  - right. right. auto.
+  - cbn. split; discriminate.
+  - right. exact Hlk.
+  - left. reflexivity.
+  - left. reflexivity.
+  - rewrite cs_next_mid by (cbn; discriminate). unfold cs_tinv. rewrite cs_mid_pc, cs_mid_op, cs_mid_lin. cbn [tr_pc tr_lin].
+    exists k. split; [rewrite Hopk; reflexivity|]. unfold cs_pend. rewrite cs_mid_lin. cbn [tr_lin tr_m tr_g c_queue c_futs cs_new_entry c_new_job cs_with].
+    split; [exact Hst|]. split; [rewrite Ho; reflexivity|]. split; [apply in_or_app; right; rewrite (si_len _ _ I); left; reflexivity|].
+    split; [intros H; apply (cs_queue_range cfg s _ I) in H; lia|rewrite app_length; cbn; lia].
+  - exact Cp.
+  - apply Co. exact Hop.
+  - cbn. discriminate.
+  - cbn. intros n Hn j tj Hne Hj Hc. inversion Hn; subst n.
+    destruct (si_thr _ _ I j tj Hj) as [Tj _]. unfold cs_tinv in Tj.
+    destruct (ct_pc tj); try discriminate Hc.
+    + destruct next as [n'|]; [|discriminate]. inversion Hc; subst. destruct Tj as [k0 [_ [_ [_ [_ [_ H]]]]]]. lia.
+    + inversion Hc; subst. destruct Tj as [k0 [_ [_ [_ [_ [_ H]]]]]]. lia.
+  - apply cs_mis_park; [apply (si_mis _ _ I)|reflexivity|reflexivity].
+Qed.
+
+Lemma cs_step_create cfg s tid t op :
+  c_cfg_ok cfg -> cs_inv cfg s -> nth_error (cs_thr s) tid = Some t -> ct_op t = Some op ->
+  match ct_pc t with
+  | CsLAL k => c_lookup (c_map (cs_m s)) k = None
+  | CsLRE k f past => cs_status_of cfg past (cs_err_of (cs_m s) f) <> CGood
+  | _ => False
+  end ->
+  cs_inv cfg (fst (cs_go cfg s tid t op (ct_prog t) (cs_tstep CsFixed cfg s tid t))).
+Proof.
+  intros Hcfg I Ht Hop Hside. destruct (cs_thr_facts cfg s tid t I Ht) as [T [Cn [Cp Co]]]. unfold cs_tinv in T.
+  destruct (ct_pc t) eqn:Epc; try contradiction; unfold cs_tstep; rewrite Epc; cbv zeta.
+  - (* LAL, absent *)
+    destruct T as [T1 T2]. rewrite Hside. unfold cs_lin_load.
+    assert (Hg : c_lookup (c_map (cs_g s)) k = None) by (rewrite <- (si_map _ _ I); exact Hside).
+    assert (Hload : c_load cfg (cs_g s) k = (c_new_job (cs_g s) k None, OLoad (length (c_futs (cs_g s))) true)).
+    { unfold c_load. rewrite Hg. reflexivity. }
+    rewrite Hload.
+    apply (cs_create_inv cfg s tid t op k CEmpty None None _ Hcfg I Ht Hop); auto;
+      first [solve [rewrite Hop in T1; inversion T1; reflexivity] | solve [discriminate]
+            | solve [intros f [Hl _]; congruence] | solve [rewrite (si_len _ _ I); reflexivity]].
+  - (* LRE, not Good *)
+    destruct T as [T1 [T2 [T3 [v [e [u [T4 [T5 T6]]]]]]]]. unfold cs_err_of in *. rewrite T4 in *.
+    destruct (cs_lookup_facts cfg s k f I T3) as [Hg _].
+    destruct (cs_status_cases cfg s false k f v e u Hcfg I T3 T4) as [[Hs _]|[Hgd _]]; [rewrite <- T5 in Hs; congruence|].
+    assert (Hload := cs_load_eq cfg (cs_g s) k f v e u Hg Hgd). rewrite <- (si_now _ _ I), <- T5 in Hload.
+    specialize (Hload Hside). unfold cs_lin_load.
+    assert (HnoA : forall f0, ~ cs_A (cs_g s) k f0).
+    { intros f0 [Hl Hi]. rewrite Hg in Hl. inversion Hl; subst f0. apply cs_isload_fdone in Hi. congruence. }
+    assert (Hopk : op = CsLoad k) by (rewrite Hop in T1; inversion T1; reflexivity).
+    destruct (cs_status_of cfg past e) eqn:Es; try congruence;
+      [exfalso; exact (cs_status_of_nonempty _ _ _ Es)| |]; rewrite Hload.
+    + apply (cs_create_inv cfg s tid t op k CExpired (Some f) (Some f) _ Hcfg I Ht Hop Hopk); auto;
+        first [solve [right; eauto] | solve [discriminate] | solve [rewrite (si_len _ _ I); reflexivity]].
+    + apply (cs_create_inv cfg s tid t op k CRotted (Some f) None _ Hcfg I Ht Hop Hopk); auto;
+        first [solve [right; eauto] | solve [discriminate] | solve [rewrite (si_len _ _ I); reflexivity]].
+Qed.
+
+Lemma NoDup_app_intro_single {A} (l : list A) x : NoDup l -> ~ In x l -> NoDup (l ++ [x]).
+Proof.
+  intros Hn Hx. induction l as [|a r IH]; cbn; [constructor; [intros []|constructor]|].
+  inversion Hn; subst. constructor.
+  - intros H. apply in_app_or in H. destruct H as [H|[H|[]]]; [contradiction|]. subst. apply Hx. left. reflexivity.
+  - apply IH; [assumption|]. intros H. apply Hx. right. exact H.
+Qed.
+
+(* ---------------- sendJob *)
+Lemma cs_step_send cfg s tid t op st last n :
+  c_cfg_ok cfg -> cs_inv cfg s -> nth_error (cs_thr s) tid = Some t -> ct_op t = Some op -> ct_pc t = CsLSJ st last n ->
+  cs_inv cfg (fst (cs_go cfg s tid t op (ct_prog t) (cs_tstep CsFixed cfg s tid t))).
+Proof.
+  intros Hcfg I Ht Hop Epc. destruct (cs_thr_facts cfg s tid t I Ht) as [T [Cn [Cp Co]]]. unfold cs_tinv in T.
+  unfold cs_tstep. rewrite Epc in *. cbv zeta. destruct T as [k [T1 [P1 [P2 [P3 [P4 P5]]]]]].
+  set (rr := match st, last with CExpired, Some f => f | _, _ => n end) in *.
+  assert (Hh : (false = true <-> cs_lock s = Some tid)).
+  { split; [discriminate|]. intros H. apply (si_lock _ _ I tid t Ht) in H. rewrite Epc in H. discriminate. }
+  apply (cs_go_inv cfg s tid t op (ct_prog t) _ (Some n) None Hcfg I Ht); unfold cs_return; cbn [tr_m tr_g tr_lock tr_pc tr_ret tr_chk tr_lin].
+  - apply cs_ext_enqueue.
+  - apply (si_g _ _ I).
+  - apply (si_nodisp _ _ I).
+  - reflexivity.
+  - reflexivity.
+  - cbn. apply (si_map _ _ I).
+  - cbn. apply (si_len _ _ I).
+  - apply cs_fut_keep; auto; try reflexivity. intros f v e n0. rewrite Epc. discriminate.
+  - cbn. intros f H. apply in_app_or in H. destruct H as [H|[<-|[]]]; [apply (si_queue _ _ I); exact H|exact P3].
+  - cbn. apply NoDup_app_intro_single; [apply (si_qnodup _ _ I)|exact P4].
+  - left. reflexivity.
+  - cbn. exact Hh.
+  - left. reflexivity.
+  - right. rewrite Epc. reflexivity.
+  - left. reflexivity.
+  - unfold cs_next. cbn. reflexivity.
+  - exact Cp.
+  - apply Co. exact Hop.
+  - cbn. discriminate.
+  - cbn. discriminate.
+  - eapply cs_mis_ret; [apply (si_mis _ _ I)|reflexivity|reflexivity|].
+    cbn [cs_justified]. rewrite cs_mid_lin. cbn [tr_lin]. rewrite P2. apply cs_out_eqb_spec. reflexivity.
+Qed.
+
+(* ---------------- the worker's stores *)
+Lemma cs_worker_loading cfg s tid t f :
+  cs_inv cfg s -> nth_error (cs_thr s) tid = Some t -> cs_wfut (ct_pc t) = Some f ->
+  (forall v e n, ct_pc t <> CsWSP f v e n) -> In f (c_running (cs_g s)) ->
+  c_isload (c_futs (cs_g s)) f /\ exists x, c_get (c_futs (cs_m s)) f = Some x /\ c_fdone x = None.
+Proof.
+  intros I Ht Hw Hpc Hin.
+  assert (Hi : c_isload (c_futs (cs_g s)) f). { apply (ci_jobs _ _ (si_g _ _ I)). apply in_or_app. right. exact Hin. }
+  split; [exact Hi|]. destruct Hi as [y [Hy Hyd]]. pose proof (c_get_lt _ _ _ Hy) as Hlt. rewrite <- (si_len _ _ I) in Hlt.
+  destruct (c_get (c_futs (cs_m s)) f) as [x|] eqn:Ex; [|unfold c_get in Ex; apply nth_error_None in Ex; lia].
+  exists x. split; [reflexivity|]. destruct (si_fut _ _ I f x Ex) as [y' [Hy' [_ [_ Hd]]]]. rewrite Hy in Hy'. inversion Hy'; subst y'.
+  destruct Hd as [Hd|[_ [j [tj [v [e [Hj [Hpcj _]]]]]]]]; [congruence|].
+  assert (j = tid). { eapply (si_wuniq _ _ I j tid tj t f Hj Ht); [rewrite Hpcj; reflexivity|exact Hw]. }
+  subst j. rewrite Ht in Hj. inversion Hj; subst tj. exfalso. exact (Hpc _ _ _ Hpcj).
+Qed.
+
+(* one future changes in memory (and possibly in the ghost) *)
+Lemma cs_fut_set cfg s tid t op prog r f x y x' y' :
+  cs_inv cfg s -> nth_error (cs_thr s) tid = Some t ->
+  c_get (c_futs (cs_m s)) f = Some x -> c_get (c_futs (cs_g s)) f = Some y ->
+  c_futs (tr_m r) = c_setfut (c_futs (cs_m s)) f x' ->
+  (c_futs (tr_g r) = c_setfut (c_futs (cs_g s)) f y' \/ (c_futs (tr_g r) = c_futs (cs_g s) /\ y' = y)) ->
+  c_now (tr_m r) = c_now (cs_m s) ->
+  (c_fkey y' = c_fkey x' /\ c_fpred y' = c_fpred x' /\
+   (c_fdone y' = c_fdone x' \/
+    (c_fdone y' = None /\ exists v e, tr_pc r = CsWSP f v e (c_now (cs_m s)) /\ c_fdone x' = Some (v, e, c_now (cs_m s))))) ->
+  (forall f' v e n, ct_pc t = CsWSP f' v e n -> f' = f) ->
+  cs_futrel (fst (cs_go cfg s tid t op prog r)).
+Proof.
+  intros I Ht Hx Hy Hfm Hfg Hn Hf Hoth f0 x0 Hx0.
+  change (cs_m (fst (cs_go cfg s tid t op prog r))) with (tr_m r) in *.
+  change (cs_g (fst (cs_go cfg s tid t op prog r))) with (tr_g r).
+  pose proof (c_get_lt _ _ _ Hx) as Hltm. pose proof (c_get_lt _ _ _ Hy) as Hltg.
+  rewrite Hfm, c_get_setfut in Hx0 by exact Hltm. rewrite Hn.
+  assert (Hgy : forall g0, c_get (c_futs (tr_g r)) g0 = if Nat.eqb g0 f then Some y' else c_get (c_futs (cs_g s)) g0).
+  { intros g0. destruct Hfg as [Hfg|[Hfg ->]]; rewrite Hfg.
+    - apply c_get_setfut. exact Hltg.
+    - destruct (Nat.eqb g0 f) eqn:E; [apply Nat.eqb_eq in E; subst; exact Hy|reflexivity]. }
+  rewrite Hgy. destruct (Nat.eqb f0 f) eqn:E.
+  - apply Nat.eqb_eq in E. subst f0. inversion Hx0; subst x0. exists y'. split; [reflexivity|].
+    destruct Hf as [Hk [Hp Hd]]. split; [exact Hk|]. split; [exact Hp|].
+    destruct Hd as [Hd|[Hd [v [e [Hpc Hdx]]]]]; [left; exact Hd|right]. split; [exact Hd|].
+    exists tid, (cs_next cfg t op prog r), v, e. split; [apply cs_wit_self; exact Ht|]. rewrite cs_next_pc. auto.
+  - destruct (si_fut _ _ I f0 x0 Hx0) as [y0 [Hy0 [Hk [Hp Hd]]]]. exists y0. split; [exact Hy0|]. split; [exact Hk|]. split; [exact Hp|].
+    destruct Hd as [Hd|[Hd [j [tj [v0 [e0 [Hj [Hpcj Hdx]]]]]]]]; [left; exact Hd|right]. split; [exact Hd|].
+    exists j, (cs_note cfg (tr_g r) tj), v0, e0.
+    assert (Hne : j <> tid).
+    { intros ->. rewrite Ht in Hj. inversion Hj; subst tj. apply Nat.eqb_neq in E. apply E. eapply Hoth; eauto. }
+    split; [apply (cs_wit_keep cfg s tid t op prog r j tj Ht Hj Hne)|]. rewrite cs_note_pc. auto.
+Qed.
+
+Lemma cs_step_store_done cfg s tid t op f v e now :
+  c_cfg_ok cfg -> cs_inv cfg s -> nth_error (cs_thr s) tid = Some t -> ct_op t = Some op -> ct_pc t = CsWSU f v e now ->
+  cs_inv cfg (fst (cs_go cfg s tid t op (ct_prog t) (cs_tstep CsFixed cfg s tid t))).
+Proof.
+  intros Hcfg I Ht Hop Epc. destruct (cs_thr_facts cfg s tid t I Ht) as [T [Cn [Cp Co]]]. unfold cs_tinv in T.
+  rewrite Epc in T. destruct T as [T0 [T1 T2]]. subst now.
+  destruct (cs_worker_loading cfg s tid t f I Ht) as [Hil [x [Hx Hxd]]]; [rewrite Epc; reflexivity|intros v0 e0 n0; rewrite Epc; discriminate|exact T1|].
+  pose proof (c_get_lt _ _ _ Hx) as Hlt. destruct Hil as [y [Hy Hyd]].
+  unfold cs_tstep. rewrite Epc. cbv zeta.
+  assert (Hh : (false = true <-> cs_lock s = Some tid)).
+  { split; [discriminate|]. intros H. apply (si_lock _ _ I tid t Ht) in H. rewrite Epc in H. discriminate. }
+  assert (Hsd : cs_store_done (cs_m s) f (v, e, c_now (cs_m s)) =
+                cs_with (cs_m s) (c_setfut (c_futs (cs_m s)) f {| c_fkey := c_fkey x; c_fdone := Some (v, e, c_now (cs_m s)); c_fpred := c_fpred x |})
+                  (c_map (cs_m s)) (c_queue (cs_m s)) (c_running (cs_m s))).
+  { unfold cs_store_done. rewrite Hx. reflexivity. }
+  apply (cs_go_inv cfg s tid t op (ct_prog t) _ None None Hcfg I Ht); unfold cs_park; cbn [tr_m tr_g tr_lock tr_pc tr_ret tr_chk tr_lin].
+  - eapply cs_ext_store_done; eauto.
+  - apply (si_g _ _ I).
+  - apply (si_nodisp _ _ I).
+  - rewrite Hsd. reflexivity.
+  - reflexivity.
+  - rewrite Hsd. cbn. apply (si_map _ _ I).
+  - rewrite Hsd. cbn. rewrite c_setfut_length by exact Hlt. apply (si_len _ _ I).
+  - eapply (cs_fut_set cfg s tid t op (ct_prog t) _ f x y _ y I Ht Hx Hy); cbn [tr_m tr_g tr_pc].
+    + rewrite Hsd. reflexivity.
+    + right. split; reflexivity.
+    + rewrite Hsd. reflexivity.
+    + cbn [c_fkey c_fpred c_fdone]. destruct (si_fut _ _ I f x Hx) as [y0 [Hy0 [Hk [Hp _]]]]. rewrite Hy in Hy0. inversion Hy0; subst y0.
+      split; [exact Hk|]. split; [exact Hp|]. right. split; [exact Hyd|]. eauto.
+    + intros f' v0 e0 n0 H. rewrite Epc in H. discriminate.
+  - rewrite Hsd. cbn. apply (si_queue _ _ I).
+  - rewrite Hsd. cbn. apply (si_qnodup _ _ I).
+  - left. reflexivity.
+  - cbn. exact Hh.
+  - left. rewrite Hsd. reflexivity.
+  - left. reflexivity.
+  - left. reflexivity.
+  - rewrite cs_next_mid by (cbn; discriminate). unfold cs_tinv. rewrite cs_mid_pc, cs_mid_op. cbn [tr_pc].
+    split; [discriminate|]. split; [exact T1|]. rewrite Hsd. cbn [c_now cs_with]. split; [reflexivity|].
+    unfold cs_fdone, cs_with. cbn [c_futs]. rewrite c_get_setfut by exact Hlt. rewrite Nat.eqb_refl. reflexivity.
+  - exact Cp.
+  - apply Co. exact Hop.
+  - cbn. intros f0 Hf0 j tj Hne Hj Hc. inversion Hf0; subst f0. apply Hne.
+    eapply (si_wuniq _ _ I j tid tj t f); eauto. rewrite Epc. reflexivity.
+  - cbn. discriminate.
+  - apply cs_mis_park; [apply (si_mis _ _ I)|reflexivity|reflexivity].
+Qed.
+
+Lemma cs_mis_ret_chk cfg s tid t op prog r res o :
+  cs_mis s = false -> tr_ret r = Some (res, o) -> tr_chk r = Some o ->
+  cs_justified (cs_mid cfg t op prog r) o = true -> cs_mis (fst (cs_go cfg s tid t op prog r)) = false.
+Proof.
+  intros H H1 H2 H3. unfold cs_go. cbn [fst cs_mis]. fold (cs_mid cfg t op prog r). rewrite H, H1, H2, H3.
+  assert (E : cs_out_eqb o o = true) by (apply cs_out_eqb_spec; reflexivity). rewrite E. reflexivity.
+Qed.
+
+Lemma cs_step_store_pred cfg s tid t op f v e now :
+  c_cfg_ok cfg -> cs_inv cfg s -> nth_error (cs_thr s) tid = Some t -> ct_op t = Some op -> ct_pc t = CsWSP f v e now ->
+  cs_inv cfg (fst (cs_go cfg s tid t op (ct_prog t) (cs_tstep CsFixed cfg s tid t))).
+Proof.
+  intros Hcfg I Ht Hop Epc. destruct (cs_thr_facts cfg s tid t I Ht) as [T [Cn [Cp Co]]]. unfold cs_tinv in T.
+  rewrite Epc in T. destruct T as [T0 [T1 [T2 T3]]]. subst now.
+  pose proof (si_g _ _ I) as Ig.
+  assert (Hil : c_isload (c_futs (cs_g s)) f). { apply (ci_jobs _ _ Ig). apply in_or_app. right. exact T1. }
+  destruct Hil as [y [Hy Hyd]]. destruct (cs_fdone_get _ _ _ T3) as [x [Hx Hxd]].
+  pose proof (c_get_lt _ _ _ Hx) as Hltm. pose proof (c_get_lt _ _ _ Hy) as Hltg.
+  destruct (si_fut _ _ I f x Hx) as [y0 [Hy0 [Hk [Hp _]]]]. rewrite Hy in Hy0. inversion Hy0; subst y0.
+  set (k := cs_fkey (cs_g s) f).
+  assert (Hkey : c_key_is (c_futs (cs_g s)) k f = true).
+  { unfold c_key_is, k, cs_fkey. rewrite Hy. apply Z.eqb_refl. }
+  destruct (cs_rank_take (c_key_is (c_futs (cs_g s)) k) f (c_running (cs_g s)) T1 Hkey) as [r' Hr'].
+  set (g' := {| c_now := c_now (cs_g s);
+                c_futs := c_setfut (c_futs (cs_g s)) f {| c_fkey := k; c_fdone := Some (v, e, c_now (cs_g s)); c_fpred := None |};
+                c_map := c_map (cs_g s); c_queue := c_queue (cs_g s); c_running := r'; c_displaced := c_displaced (cs_g s) |}).
+  assert (Hfin : c_finish (cs_g s) k (cs_rank (c_key_is (c_futs (cs_g s)) k) f (c_running (cs_g s))) v e = (g', OFinish f)).
+  { unfold c_finish. rewrite Hr'. reflexivity. }
+  unfold cs_tstep. rewrite Epc. cbv zeta. fold k. rewrite Hfin.
+  assert (Hh : (false = true <-> cs_lock s = Some tid)).
+  { split; [discriminate|]. intros H. apply (si_lock _ _ I tid t Ht) in H. rewrite Epc in H. discriminate. }
+  assert (Hsp : cs_store_pred_nil (cs_m s) f =
+                cs_with (cs_m s) (c_setfut (c_futs (cs_m s)) f {| c_fkey := c_fkey x; c_fdone := c_fdone x; c_fpred := None |})
+                  (c_map (cs_m s)) (c_queue (cs_m s)) (c_running (cs_m s))).
+  { unfold cs_store_pred_nil. rewrite Hx. reflexivity. }
+  apply (cs_go_inv cfg s tid t op (ct_prog t) _ None (Some f) Hcfg I Ht); cbn [tr_m tr_g tr_lock tr_pc tr_ret tr_chk tr_lin].
+  - eapply (cs_ext_finish cfg (cs_m s) (cs_g s) f x v e k _ g' Ig (si_now _ _ I) Hx Hxd); [exists y; auto|exact Hfin].
+  - eapply c_inv_finish; [exact Ig|exact Hfin].
+  - cbn. apply (si_nodisp _ _ I).
+  - rewrite Hsp. reflexivity.
+  - reflexivity.
+  - rewrite Hsp. cbn. apply (si_map _ _ I).
+  - rewrite Hsp. cbn. rewrite !c_setfut_length by assumption. apply (si_len _ _ I).
+  - eapply (cs_fut_set cfg s tid t op (ct_prog t) _ f x y _ _ I Ht Hx Hy); cbn [tr_m tr_g tr_pc].
+    + rewrite Hsp. reflexivity.
+    + left. reflexivity.
+    + rewrite Hsp. reflexivity.
+    + cbn [c_fkey c_fpred c_fdone]. split; [unfold k, cs_fkey; rewrite Hy; exact Hk|]. split; [reflexivity|].
+      left. rewrite Hxd, (si_now _ _ I). reflexivity.
+    + intros f' v0 e0 n0 H. rewrite Epc in H. inversion H. reflexivity.
+  - rewrite Hsp. cbn. apply (si_queue _ _ I).
+  - rewrite Hsp. cbn. apply (si_qnodup _ _ I).
+  - left. reflexivity.
+  - cbn. exact Hh.
+  - left. rewrite Hsp. reflexivity.
+  - left. reflexivity.
+  - right. rewrite Epc. reflexivity.
+  - unfold cs_next. cbn. reflexivity.
+  - exact Cp.
+  - apply Co. exact Hop.
+  - cbn. discriminate.
+  - cbn. discriminate.
+  - eapply cs_mis_ret_chk; [apply (si_mis _ _ I)|reflexivity|reflexivity|reflexivity].
+Qed.
+
+Lemma cs_nodup_app_disj {A} (a b : list A) x : NoDup (a ++ b) -> In x a -> In x b -> False.
+Proof.
+  induction a as [|y r IH]; cbn; intros Hn Ha Hb; [destruct Ha|]. inversion Hn; subst.
+  destruct Ha as [->|Ha]; [apply H1; apply in_or_app; right; exact Hb|]. exact (IH H2 Ha Hb).
+Qed.
+
+(* ---------------- first step of a call *)
+Lemma cs_take_first_ex p (l : list nat) f : In f l -> p f = true -> exists f' l', c_take_first p l = Some (f', l').
+Proof.
+  induction l as [|a r IH]; intros Hin Hp; [destruct Hin|]. cbn [c_take_first]. destruct (p a) eqn:E; [eauto|].
+  destruct Hin as [->|Hin]; [congruence|]. destruct (IH Hin Hp) as [f' [l' H]]. rewrite H. eauto.
+Qed.
+
+Lemma cs_step_start cfg s tid t op rest :
+  c_cfg_ok cfg -> cs_inv cfg s -> nth_error (cs_thr s) tid = Some t -> ct_op t = None -> ct_prog t = op :: rest ->
+  cs_inv cfg (fst (cs_go cfg s tid t op rest (cs_tstart cfg s op))).
+Proof.
+  intros Hcfg I Ht Hop Hprog. destruct (si_thr _ _ I tid t Ht) as [T [Cn [Cp _]]].
+  rewrite Hprog in Cp. cbn [forallb] in Cp. apply andb_true_iff in Cp. destruct Cp as [Hco Hcr].
+  assert (Hidle : cs_holds (ct_pc t) = false /\ cs_wfut (ct_pc t) = None /\ cs_pnext (ct_pc t) = None /\ forall f v e n, ct_pc t <> CsWSP f v e n).
+  { unfold cs_tinv in T. destruct (ct_pc t) eqn:E; repeat split; try reflexivity; try discriminate;
+      try (exfalso; repeat match goal with H : exists _, _ |- _ => destruct H | H : _ /\ _ |- _ => destruct H end; congruence).
+    all: try (destruct next; [exfalso; repeat match goal with H : exists _, _ |- _ => destruct H | H : _ /\ _ |- _ => destruct H end; congruence|contradiction]).
+    all: try (destruct fo; [contradiction|exfalso; repeat match goal with H : exists _, _ |- _ => destruct H | H : _ /\ _ |- _ => destruct H end; congruence]).
+    all: try contradiction. }
+  destruct Hidle as [Hh [Hw0 [Hp0 Hnw]]].
+  assert (Hlk2 : false = true <-> cs_lock s = Some tid).
+  { split; [discriminate|]. intros H. apply (si_lock _ _ I tid t Ht) in H. congruence. }
+  destruct op as [k|k|k v e|v e|]; try discriminate Hco; unfold cs_tstart; cbv zeta.
+  - (* Load *)
+    apply cs_go_pure; auto; unfold cs_park; cbn [tr_m tr_g tr_lock tr_pc tr_ret tr_chk tr_lin cs_holds cs_wfut cs_pnext]; auto.
+    + rewrite cs_next_mid by (cbn; discriminate). unfold cs_tinv. rewrite cs_mid_pc, cs_mid_op, cs_mid_lin. cbn. auto.
+    + apply cs_mis_park; [apply (si_mis _ _ I)|reflexivity|reflexivity].
+  - (* Get2 *)
+    apply cs_go_pure; auto; unfold cs_park; cbn [tr_m tr_g tr_lock tr_pc tr_ret tr_chk tr_lin cs_holds cs_wfut cs_pnext]; auto.
+    + rewrite cs_next_mid by (cbn; discriminate). unfold cs_tinv. rewrite cs_mid_pc, cs_mid_op. cbn. auto.
+    + apply cs_mis_park; [apply (si_mis _ _ I)|reflexivity|reflexivity].
+  - (* worker *)
+    destruct (c_queue (cs_m s)) as [|f q] eqn:Eq.
+    + apply cs_go_pure; auto; unfold cs_return; cbn [tr_m tr_g tr_lock tr_pc tr_ret tr_chk tr_lin cs_holds cs_wfut cs_pnext]; auto.
+      * unfold cs_next. cbn. reflexivity.
+      * eapply cs_mis_ret; [apply (si_mis _ _ I)|reflexivity|reflexivity|reflexivity].
+    + pose proof (si_g _ _ I) as Ig.
+      assert (Hfq : In f (c_queue (cs_g s))). { apply (si_queue _ _ I). rewrite Eq. left. reflexivity. }
+      assert (Hil : c_isload (c_futs (cs_g s)) f). { apply (ci_jobs _ _ Ig). apply in_or_app. left. exact Hfq. }
+      destruct Hil as [y [Hy Hyd]]. set (k := cs_fkey (cs_g s) f).
+      assert (Hkey : c_key_is (c_futs (cs_g s)) k f = true). { unfold c_key_is, k, cs_fkey. rewrite Hy. apply Z.eqb_refl. }
+      destruct (cs_take_first_ex _ _ f Hfq Hkey) as [f' [q' Htf]].
+      assert (Hf' : f' = f).
+      { destruct (c_take_first_spec _ _ _ _ Htf) as [HP Hk']. apply c_key_is_spec in Hk'. destruct Hk' as [y' [Hy' Hky']].
+        assert (Hin' : In f' (c_queue (cs_g s))). { eapply Permutation_in; [apply Permutation_sym; exact HP|left; reflexivity]. }
+        assert (Hil' : c_isload (c_futs (cs_g s)) f'). { apply (ci_jobs _ _ Ig). apply in_or_app. left. exact Hin'. }
+        destruct Hil' as [y'' [Hy'' Hyd'']]. rewrite Hy' in Hy''. inversion Hy''; subst y''.
+        destruct (ci_current _ _ Ig f y Hy Hyd) as [Hd|Hc]; [rewrite (si_nodisp _ _ I) in Hd; destruct Hd|].
+        destruct (ci_current _ _ Ig f' y' Hy' Hyd'') as [Hd|Hc']; [rewrite (si_nodisp _ _ I) in Hd; destruct Hd|].
+        assert (c_fkey y = k) by (unfold k, cs_fkey; rewrite Hy; reflexivity). congruence. }
+      subst f'.
+      assert (Hst : c_start (cs_g s) k =
+                ({| c_now := c_now (cs_g s); c_futs := c_futs (cs_g s); c_map := c_map (cs_g s); c_queue := q';
+                    c_running := c_running (cs_g s) ++ [f]; c_displaced := c_displaced (cs_g s) |}, OStart f)).
+      { unfold c_start. rewrite Htf. reflexivity. }
+      fold k. rewrite Hst. rewrite Nat.eqb_refl.
+      destruct (c_take_first_spec _ _ _ _ Htf) as [HP _].
+      pose proof (si_qnodup _ _ I) as Hnd. rewrite Eq in Hnd. inversion Hnd as [|? ? Hnf Hndq]; subst.
+      apply (cs_go_inv cfg s tid t (CsFinish v e) rest _ None None Hcfg I Ht); cbn [tr_m tr_g tr_lock tr_pc tr_ret tr_chk tr_lin].
+      * eapply cs_ext_start; eauto.
+      * eapply c_inv_start; [exact Ig|exact Hst].
+      * cbn. apply (si_nodisp _ _ I).
+      * reflexivity.
+      * reflexivity.
+      * cbn. apply (si_map _ _ I).
+      * cbn. apply (si_len _ _ I).
+      * apply cs_fut_keep; auto; reflexivity.
+      * cbn. intros f0 Hin. assert (Hg0 : In f0 (c_queue (cs_g s))) by (apply (si_queue _ _ I); rewrite Eq; right; exact Hin).
+        apply (Permutation_in _ HP) in Hg0. destruct Hg0 as [<-|H]; [contradiction|exact H].
+      * cbn. exact Hndq.
+      * left. reflexivity.
+      * cbn. exact Hlk2.
+      * left. reflexivity.
+      * left. reflexivity.
+      * left. reflexivity.
+      * rewrite cs_next_mid by (cbn; discriminate). unfold cs_tinv. rewrite cs_mid_pc, cs_mid_op. cbn.
+        split; [discriminate|]. apply in_or_app. right. left. reflexivity.
+      * exact Hcr.
+      * reflexivity.
+      * cbn. intros f0 Hf0 j tj Hne Hj Hc. inversion Hf0; subst f0.
+        destruct (si_thr _ _ I j tj Hj) as [Tj _]. unfold cs_tinv in Tj.
+        assert (Hr : In f (c_running (cs_g s))).
+        { destruct (ct_pc tj); try discriminate Hc; inversion Hc; subst; [destruct Tj as [_ H]|destruct Tj as [_ [H _]]|destruct Tj as [_ [H _]]]; exact H. }
+        exact (cs_nodup_app_disj _ _ f (ci_jobs_nodup _ _ Ig) Hfq Hr).
+      * cbn. discriminate.
+      * unfold cs_go. cbn [fst cs_mis tr_ret tr_chk]. rewrite (si_mis _ _ I). reflexivity.
+Qed.
+
+(* ---------------- clock tick *)
+Lemma cs_tick_inv cfg s dt :
+  c_cfg_ok cfg -> cs_inv cfg s -> cs_bad (fst (cs_step CsFixed cfg s (CsTick dt))) = false ->
+  cs_inv cfg (fst (cs_step CsFixed cfg s (CsTick dt))).
+Proof.
+  intros Hcfg I Hb. cbn [cs_step] in *. destruct (dt <? 0) eqn:Edt; [exact I|]. cbn [fst] in *. cbn [cs_bad] in Hb.
+  apply orb_false_iff in Hb. destruct Hb as [_ Hb].
+  assert (Hwin : forall j tj, nth_error (cs_thr s) j = Some tj -> cs_in_window CsFixed (ct_pc tj) = true -> dt = 0).
+  { intros j tj Hj Hw. destruct (0 <? dt) eqn:E; [|lia]. cbn in Hb. exfalso.
+    assert (existsb (fun t => cs_in_window CsFixed (ct_pc t)) (cs_thr s) = true).
+    { apply existsb_exists. exists tj. split; [eapply nth_error_In; eauto|exact Hw]. }
+    congruence. }
+  set (g' := fst (c_step cfg (cs_g s) (CAdvance dt))).
+  assert (Hg' : g' = {| c_now := c_now (cs_g s) + dt; c_futs := c_futs (cs_g s); c_map := c_map (cs_g s); c_queue := c_queue (cs_g s);
+                        c_running := c_running (cs_g s); c_displaced := c_displaced (cs_g s) |}).
+  { unfold g'. cbn [c_step]. rewrite Edt. reflexivity. }
+  assert (Ig' : c_inv cfg g') by (apply c_inv_step; apply (si_g _ _ I)).
+  assert (Hnth : forall j tj', nth_error (map (cs_note cfg g') (cs_thr s)) j = Some tj' ->
+            exists tj, nth_error (cs_thr s) j = Some tj /\ tj' = cs_note cfg g' tj).
+  { intros j tj' H. rewrite nth_error_map in H. destruct (nth_error (cs_thr s) j) as [tj|]; [|discriminate]. inversion H. eauto. }
+  constructor; cbn [cs_m cs_g cs_thr cs_lock cs_mis].
+  - exact Ig'.
+  - rewrite Hg'. cbn. apply (si_nodisp _ _ I).
+  - rewrite Hg'. cbn. rewrite (si_now _ _ I). reflexivity.
+  - rewrite Hg'. cbn. apply (si_map _ _ I).
+  - rewrite Hg'. cbn. apply (si_len _ _ I).
+  - intros f x Hx. cbn [cs_tick c_futs c_now] in *.
+    assert (Hfg : c_futs g' = c_futs (cs_g s)) by (rewrite Hg'; reflexivity). rewrite Hfg.
+    destruct (si_fut _ _ I f x Hx) as [y [Hy [Hk [Hp Hd]]]]. exists y. split; [exact Hy|]. split; [exact Hk|]. split; [exact Hp|].
+    destruct Hd as [Hd|[Hd [j [tj [v [e [Hj [Hpcj Hdx]]]]]]]]; [left; exact Hd|right]. split; [exact Hd|].
+    assert (Hz : dt = 0). { apply (Hwin j tj Hj). rewrite Hpcj. reflexivity. }
+    exists j, (cs_note cfg g' tj), v, e. replace (c_now (cs_m s) + dt) with (c_now (cs_m s)) by lia.
+    split; [rewrite nth_error_map, Hj; reflexivity|]. rewrite cs_note_pc. auto.
+  - rewrite Hg'. cbn. apply (si_queue _ _ I).
+  - cbn. apply (si_qnodup _ _ I).
+  - intros j tj' Hj. destruct (Hnth j tj' Hj) as [tj [Hj0 ->]]. rewrite cs_note_pc. apply (si_lock _ _ I j tj Hj0).
+  - intros j tj' Hj. destruct (Hnth j tj' Hj) as [tj [Hj0 ->]]. destruct (si_thr _ _ I j tj Hj0) as [T [Cn Cv]].
+    split; [|split; [apply cs_note_now|apply cs_note_covered; exact Cv]].
+    apply (cs_tinv_ext cfg Hcfg None None (cs_m s) (cs_g s) (cs_tick (cs_m s) dt) g').
+    + unfold g'. apply cs_ext_tick. lia.
+    + exact Ig'.
+    + rewrite Hg'. cbn. rewrite (si_now _ _ I). reflexivity.
+    + exact T.
+    + exact Cn.
+    + intros _. reflexivity.
+    + intros Hw. pose proof (Hwin j tj Hj0 Hw) as Hz. rewrite Hg'. cbn. lia.
+    + intros n _. discriminate.
+    + intros f _. discriminate.
+  - intros i j ti tj f Hi Hj Hfi Hfj. destruct (Hnth i ti Hi) as [ti0 [Hi0 ->]]. destruct (Hnth j tj Hj) as [tj0 [Hj0 ->]].
+    rewrite cs_note_pc in Hfi, Hfj. eapply (si_wuniq _ _ I); eauto.
+  - intros i j ti tj n Hi Hj Hfi Hfj. destruct (Hnth i ti Hi) as [ti0 [Hi0 ->]]. destruct (Hnth j tj Hj) as [tj0 [Hj0 ->]].
+    rewrite cs_note_pc in Hfi, Hfj. eapply (si_puniq _ _ I); eauto.
+  - apply (si_mis _ _ I).
+Qed.
+
+(* ================================================================== every step, every run *)
+Lemma cs_bad_mono md cfg s it : cs_bad (fst (cs_step md cfg s it)) = false -> cs_bad s = false.
+Proof.
+  destruct it as [tid|dt]; cbn [cs_step].
+  - destruct (nth_error (cs_thr s) tid) as [t|]; [|auto]. destruct (cs_blocked s t); [auto|].
+    destruct (ct_op t); [auto|]. destruct (ct_prog t); auto.
+  - destruct (dt <? 0); [auto|]. cbn. intros H. apply orb_false_iff in H. tauto.
+Qed.
+
+Lemma cs_step_inv cfg s it :
+  c_cfg_ok cfg -> cs_inv cfg s -> cs_bad (fst (cs_step CsFixed cfg s it)) = false ->
+  cs_inv cfg (fst (cs_step CsFixed cfg s it)).
+Proof.
+  intros Hcfg I Hb. destruct it as [tid|dt]; [|apply cs_tick_inv; auto].
+  cbn [cs_step]. destruct (nth_error (cs_thr s) tid) as [t|] eqn:Ht; [|exact I].
+  destruct (cs_blocked s t) eqn:Hnb; [exact I|].
+  destruct (ct_op t) as [op|] eqn:Hop.
+  - destruct (si_thr _ _ I tid t Ht) as [T _]. unfold cs_tinv in T.
+    destruct (ct_pc t) eqn:Epc; try contradiction; try congruence.
+    + (* LBL *) apply (cs_step_lock cfg s tid t op Hcfg I Ht Hop Hnb). left. eauto.
+    + (* LAL *) destruct (c_lookup (c_map (cs_m s)) k) eqn:El.
+      * apply cs_step_pure; auto. rewrite Epc, El. discriminate.
+      * apply cs_step_create; auto. rewrite Epc. exact El.
+    + (* LLU *) apply cs_step_pure; auto. rewrite Epc. exact Logic.I.
+    + (* LRE *) destruct (cs_status_of cfg past (cs_err_of (cs_m s) f)) eqn:Es.
+      * apply cs_step_create; auto. rewrite Epc, Es. discriminate.
+      * apply cs_step_pure; auto. rewrite Epc. exact Es.
+      * apply cs_step_create; auto. rewrite Epc, Es. discriminate.
+      * apply cs_step_create; auto. rewrite Epc, Es. discriminate.
+    + (* LAU *) apply cs_step_pure; auto. rewrite Epc. exact Logic.I.
+    + (* LSJ *) eapply cs_step_send; eauto.
+    + (* GBL *) apply (cs_step_lock cfg s tid t op Hcfg I Ht Hop Hnb). right. eauto.
+    + (* GAL *) apply cs_step_pure; auto. rewrite Epc. exact Logic.I.
+    + (* GAU *) apply cs_step_pure; auto. rewrite Epc. exact Logic.I.
+    + (* GLU *) apply cs_step_pure; auto. rewrite Epc. exact Logic.I.
+    + (* GRE *) apply cs_step_pure; auto. rewrite Epc. exact Logic.I.
+    + (* GFW *) apply cs_step_pure; auto. rewrite Epc.
+      unfold cs_blocked in Hnb. rewrite Epc in Hnb. unfold cs_complete in Hnb. destruct (cs_fdone (cs_m s) x); [discriminate|discriminate].
+    + (* RLP *) apply cs_step_pure; auto. rewrite Epc. exact Logic.I.
+    + (* RPU *) apply cs_step_pure; auto. rewrite Epc. exact Logic.I.
+    + (* RPE *) apply cs_step_pure; auto. rewrite Epc. exact Logic.I.
+    + (* XAU *) apply cs_step_pure; auto. rewrite Epc. exact Logic.I.
+    + (* WLD *) apply cs_step_pure; auto. rewrite Epc. exact Logic.I.
+    + (* WSU *) eapply cs_step_store_done; eauto.
+    + (* WSP *) eapply cs_step_store_pred; eauto.
+  - destruct (ct_prog t) as [|op rest] eqn:Hp; [exact I|]. apply cs_step_start; auto.
+Qed.
+
+Lemma cs_run_inv cfg sched : c_cfg_ok cfg -> forall s, cs_inv cfg s ->
+  cs_bad (cs_run CsFixed cfg s sched) = false -> cs_inv cfg (cs_run CsFixed cfg s sched).
+Proof.
+  intros Hcfg. induction sched as [|it r IH]; intros s I Hb; cbn [cs_run] in *; [exact I|].
+  apply IH; [|exact Hb]. apply cs_step_inv; auto.
+  clear IH I. revert Hb. generalize (fst (cs_step CsFixed cfg s it)). induction r as [|it' r' IH']; intros s0 H; cbn [cs_run] in H; [exact H|].
+  eapply cs_bad_mono. apply IH'. exact H.
+Qed.
 (* the invariant holds initially (all threads idle on the empty cache) *)
 Lemma cs_inv_init cfg progs : cs_progs_covered progs = true -> cs_inv cfg (cs_init progs).
 Proof.
@@ -860,3 +1696,14 @@ Qed.
 
 Definition cs_out_eq_dec (a b : c_out) : {a = b} + {a <> b}.
 Proof. decide equality; try apply Nat.eq_dec; apply Bool.bool_dec. Defined.
+
+(* the refinement: programs of Load / Get2 / worker calls, Fixed order, every schedule whose
+   clock ticks stay outside the windows *)
+Theorem cs_refines cfg progs sched :
+  c_cfg_ok cfg -> cs_progs_covered progs = true ->
+  let s := cs_run CsFixed cfg (cs_init progs) sched in
+  cs_bad s = false -> cs_mis s = false /\ cs_g s = c_run cfg c_init (rev (cs_evs s)).
+Proof.
+  intros Hcfg Hc s Hb. split; [|apply cs_ghost_is_history].
+  apply (si_mis cfg). apply cs_run_inv; auto. apply cs_inv_init. exact Hc.
+Qed.
